@@ -1,41 +1,134 @@
-"""C14 — streaming base64 codec: RFC 4648 tables, 3<->4 bit regrouping, padding, carry/copy shape,
+"""C14 — streaming base64 codec: RFC 4648 tables, 3<->4 bit regrouping, padding, carry state machine, copy = min(available, room),
 short-read rule, length error (DESIGN §5 C14 clauses a, b, c-shape, d, e).
 
-Source side (src.json + sa/bitflow.py): alphabet tables, bit provenance of every emitted character
-of `Base64Encoder::write`/`finish` and of every byte returned by the decoder's 4->3 function,
-padding agreement.  MIR side: carry index discipline, min(available, room) copy, use of the decode
-results, the short-read rule and the guards of the length error.
+How it is decided.  The codec's *source* (src.json) is evaluated symbolically by `SymInterp` (a subclass of the shared evaluator
+sa/consteval.py; nothing of the repository is run): control state is concrete and enumerated (carry index, input lengths, destination
+sizes, how the inner reader cuts the stream), every data byte is a symbol whose bits are tracked exactly by sa/bitflow.py.  Rules
+therefore compare *values* with RFC 4648 (which bit of which octet reaches which index bit of which emitted character; which bytes read()
+delivers, when it errs), not statements: helper extraction / inlining, array literal vs element stores, match vs if, loops vs iterator
+chains, named constants, hoisted locals, flipped comparisons, fast paths and debug_assert!s do not change the verdict.  A data-dependent
+branch, an unknown method or a would-be panic is `Unsupported` -> anchor (fail closed).
+MIR shape rules (Counts / retry_loop / check_reads / check_read_min / check_dec_use) are kept as *diagnostics*: their findings are reported
+only for a clause the evaluation did not establish (they then name the deviating construct); on code of another shape they are notes.
 Numeric panic-freedom (clauses c/f BOUNDS, INT) is NOT done here: see `obligations`."""
+import copy
 import json
 import os
 import re
+from collections import defaultdict
 
 from .. import bitflow as bf
-from ..mir import call_matches, callee_name, op_local, op_const_int, place_str
+from .. import consteval as ce
+from ..mir import call_matches, callee_name, op_local, op_const_int
 from ..flow import resolve_place, arg_place, origins, err_return_blocks, ok_return_blocks, writes_to_field, expr as fexpr
-from ..src import find_all, lit_int, expr_text, walk
+from ..src import lit_int, expr_text, pat_text
 
 REF = os.path.join(os.path.dirname(os.path.dirname(os.path.abspath(__file__))), "refs", "rfc4648.json")
 
 
-class Shape(Exception):
-    """source construct outside the recognised idioms (reported as an anchor: fail closed)"""
+def codec_fields(prog):
+    """field names by role (robust to renaming): encoder (carry, index), decoder (buffer, capacity, consumed offset, filled size)"""
+    def fields(path):
+        vs = prog.adts.get(path, {}).get("variants", [])
+        return vs[0]["fields"] if len(vs) == 1 else []
+    enc = fields("encoder::Base64Encoder")
+    e_idx = [f["name"] for f in enc if f["ty"] == "usize"]
+    dec = fields("decoder::Base64Decoder")
+    arr = [(f["name"], int(re.match(r"^\[u8; (\d+)\]$", f["ty"]).group(1))) for f in dec if re.match(r"^\[u8; (\d+)\]$", f["ty"])]
+    us = [f["name"] for f in dec if f["ty"] == "usize"]
+    off = size = None
+    if len(us) == 2 and len(arr) == 1:
+        # the window handed out is <buffer>[offset..size]: a Range over the two usize fields that indexes the array field
+        for b in prog.bodies:
+            if not (b.impl_self and re.search(r"(^|::)Base64Decoder\b", b.impl_self)):
+                continue
+            for _, t in b.calls():
+                if not call_matches(t, r"Index(Mut)?<I>.*::index(_mut)?$") or len(t["args"]) != 2:
+                    continue
+                rg = range_def(b, t, 1)
+                if rg and rg[0] == "Range" and all(x[0] == "place" for x in rg[1]):
+                    m0, m1 = (re.fullmatch(r"\(\*_1\)\.(\w+)", x[1]) for x in rg[1])
+                    if m0 and m1 and {m0.group(1), m1.group(1)} == set(us):
+                        off, size = m0.group(1), m1.group(1)
+    return {"enc_index": e_idx[0] if len(e_idx) == 1 else None, "dec_buffer": arr[0][0] if len(arr) == 1 else None,
+            "dec_cap": arr[0][1] if len(arr) == 1 else None, "dec_offset": off, "dec_size": size}
 
 
-def obligations(ctx):
-    """Numeric obligations of clauses (c)/(f): BOUNDS on `[u8;3]`/`[u8;64]`, RANGEIDX, overflow, copy_from_slice lengths — no panic in
-    Reach(Base64Decoder::read, Base64Encoder::{write,finish}) — discharged by the abstract interpreter under two inductive struct
-    invariants that are themselves proven (sa/structinv.py): encoder carry index in 0..=2, decoder 0 <= buffer_offset <= buffer_size <= 64."""
+def suffix_prefix_lemmas(prog):
+    """Lemma SUFFIX-PREFIX for `s[a..][..n]` (the same sub-slice as `s[a..a + n]`): the range index `[..n]` on the suffix `s[a..]` is in
+    bounds when n = min(.., s.len() - a, ..) and `a` is not assigned between that minimum and the indexing — then n <= len(s) - a =
+    len(s[a..]) (that `a <= s.len()` is the obligation of the first index, discharged on its own).  The side conditions are re-checked on
+    the MIR terms on every run; the abstract interpreter does not relate the length of a suffix to the length of the slice."""
+    from .. import obligations as obl, oblrules
+    out = {}
+    for b in prog.bodies:
+        if not b.file.endswith(("decoder.rs", "encoder.rs")) or not (b.impl_self and re.search(r"(^|::)Base64(De|En)coder\b", b.impl_self)):
+            continue
+        obs = [o for o in obl.collect(b, lossy=False, unsafe=True) if not o.exp]
+        cand = [o for o in obs if o.kind == "RANGEIDX" and o.term is not None and o.term.get("k") == "call"]
+        if not cand:
+            continue
+        keys = oblrules.site_keys(obs)
+        cfg = b.cfg()
+        for o in cand:
+            t = o.term
+            try:
+                rg = range_def(b, t, 1)
+                t2 = call_def(b, t["args"][0])
+                if not (rg and rg[0] == "RangeTo" and t2 is not None and call_matches(t2, r"Index(Mut)?<I>.*::index(_mut)?$")):
+                    continue
+                rg2 = range_def(b, t2, 1)
+                if not (rg2 and rg2[0] == "RangeFrom"):
+                    continue
+                n, a = rg[1][0], rg2[1][0]
+                S = arg_place(b, t2, 0)
+                if n[0] != "min" or ("sub", ("len", S), a) not in n[1:]:
+                    continue
+                # the minimum is computed once (a call result) and `a` keeps its value from there to the indexing
+                el = op_local(agg_def(b, t["args"][1])["fields"][0])
+                mins = [(bb, rv) for l in ([el] if el is not None else []) for (bb, si, rv) in _chase(b, l)]
+                if len(mins) != 1:
+                    continue
+                min_bb = mins[0][0]
+                tb = [bb for bb, tt in b.calls() if tt is t]
+                if len(tb) != 1:
+                    continue
+                if a[0] == "var":
+                    between = cfg.reachable_from(min_bb, removed={tb[0]}) | {min_bb}
+                    if any(bb in between and bb != min_bb for (bb, si, rv) in b.defs_of(a[1])):
+                        continue
+                elif a[0] not in ("c", "arg"):
+                    continue
+            except (KeyError, IndexError, TypeError):
+                continue
+            out[(b.path, keys[id(o)])] = ("SUFFIX-PREFIX", "`s[a..][..n]` with n = min(.., s.len() - a): n <= len of the suffix")
+    return out
+
+
+def _chase(body, l, depth=0):
+    """the call definition a local's value comes from through plain moves: [(bb, 'term', call)] or []"""
+    ds = body.defs_of(l)
+    if len(ds) != 1 or depth > 10:
+        return []
+    bb, si, rv = ds[0]
+    if si == "term":
+        return [ds[0]]
+    if rv["k"] == "use" and op_local(rv["a"]) is not None:
+        return _chase(body, op_local(rv["a"]), depth + 1)
+    return []
+
+
+def _obligations(ctx):
+    """one pass over ctx.prog (the program, or a view of it with private helpers expanded)"""
     from .. import structinv, oblrules
     prog = ctx.prog
-    inv_enc = {"fields": {"size": (0, 2)}}
-    cap = 64
-    for a in prog.adts.get("decoder::Base64Decoder", {}).get("variants", []):
-        for f in a["fields"]:
-            m = re.match(r"^\[u8; (\d+)\]$", f["ty"]) if f["name"] == "buffer" else None
-            if m:
-                cap = int(m.group(1))
-    inv_dec = {"fields": {"buffer_size": (0, cap), "buffer_offset": (0, cap)}, "diffs": [("buffer_offset", "buffer_size", 0)]}
+    fl = codec_fields(prog)
+    if None in fl.values():
+        ctx.anchor("TOTAL", "codec-fields", "Base64Encoder{[u8;N], usize} / Base64Decoder{[u8;N], usize offset, usize size} not recognised: %s" % fl)
+        return
+    inv_enc = {"fields": {fl["enc_index"]: (0, 2)}}
+    cap = fl["dec_cap"]
+    inv_dec = {"fields": {fl["dec_size"]: (0, cap), fl["dec_offset"]: (0, cap)}, "diffs": [(fl["dec_offset"], fl["dec_size"], 0)]}
     ok1, e1 = structinv.establish(ctx, "INV-ENCODER", "encoder::Base64Encoder", inv_enc)
     ok2, e2 = structinv.establish(ctx, "INV-DECODER", "decoder::Base64Decoder", inv_dec)
     ef = {}
@@ -48,9 +141,259 @@ def obligations(ctx):
         invs["decoder::Base64Decoder"] = inv_dec
     entries = [b.path for b in prog.bodies if b.kind == "AssocFn" and re.sub(r"<.*$", "", b.impl_self or "") in ("encoder::Base64Encoder", "decoder::Base64Decoder")]
     ctx.assume("an io::Write/Read call on a Base64 codec object is not repeated after it returned Err (the carry index may then be 3)")
-    oblrules.run(ctx, "TOTAL", entries, lossy=False, entry_facts=ef, invariants=invs, floor_bodies=5,
+    oblrules.run(ctx, "TOTAL", entries, lossy=False, entry_facts=ef, invariants=invs, floor_bodies=5, lemmas=suffix_prefix_lemmas(prog),
                  scope=lambda b: b.file.endswith(("decoder.rs", "encoder.rs")),
                  desc="no reachable panic/overflow/out-of-bounds/length-mismatch in the base64 encoder and decoder")
+
+
+class Recorder:
+    """stands in for the check context during one pass of the numeric obligations, so that the pass that proves them is the one reported"""
+
+    def __init__(self, ctx, prog):
+        self.ctx, self.prog, self.src, self.tier = ctx, prog, ctx.src, ctx.tier
+        self.log, self.failed, self.extra = [], [], {}
+
+    def _call(self, name, *a, **kw):
+        self.log.append((name, a, kw))
+
+    def rule(self, *a, **kw):
+        self._call("rule", *a, **kw)
+
+    def instance(self, *a, **kw):
+        self._call("instance", *a, **kw)
+
+    def oblig(self, *a, **kw):
+        self._call("oblig", *a, **kw)
+
+    def trust(self, *a, **kw):
+        self._call("trust", *a, **kw)
+
+    def assume(self, *a, **kw):
+        self._call("assume", *a, **kw)
+
+    def note(self, *a, **kw):
+        self._call("note", *a, **kw)
+
+    def violation(self, rule, where, shape, msg, sites=(), detail=None):
+        self.failed.append(where)
+        self._call("violation", rule, where, shape, msg, sites=sites, detail=detail)
+
+    def anchor(self, rule, what, msg=None):
+        self.failed.append("ANCHOR")
+        self._call("anchor", rule, what, msg)
+
+    def replay(self):
+        for name, a, kw in self.log:
+            getattr(self.ctx, name)(*a, **kw)
+        for k, v in self.extra.items():
+            if isinstance(v, dict):
+                self.ctx.extra.setdefault(k, {}).update(v)
+            else:
+                self.ctx.extra[k] = v
+
+
+def sole_caller_helpers(prog):
+    """{helper path: root path}: private fns / inherent methods of the codec files all of whose call sites lie in one function (sa/inline.py)"""
+    from .. import inline
+    out = {}
+    for b in prog.bodies:
+        if b.kind not in ("Fn", "AssocFn") or b.impl_trait or not b.file.endswith(("decoder.rs", "encoder.rs")):
+            continue
+        roots = set()
+        for c in inline.callers_of(prog, b.path):
+            cb = prog.body(c)
+            roots.add((cb.closure_root or cb.path) if cb is not None else c)
+        if len(roots) == 1:
+            r = next(iter(roots))
+            rb = prog.body(r)
+            if rb is not None and rb.impl_self and re.search(r"(^|::)Base64(De|En)coder\b", rb.impl_self) and inline.inlinable(prog, b, r):
+                out[b.path] = r
+    return out
+
+
+def inline_only(prog, path, only, depth=3):
+    """the expansion of sa/inline.py restricted to the callees named in `only` (each still subject to inline.inlinable)"""
+    from .. import inline
+    from ..mir import Body
+    base = prog.body(path)
+    if base is None:
+        return None
+    root = base.closure_root or base.path
+    j = None
+    work = list(range(len(base.blocks)))
+    level = {i: 0 for i in work}
+    blocks, locals_, vars_ = base.blocks, base.locals, base.j["vars"]
+    while work:
+        bb = work.pop(0)
+        blk = blocks[bb]
+        t = blk["term"]
+        if t["k"] != "call" or level.get(bb, 0) >= depth or blk["cleanup"]:
+            continue
+        f = t["fn"]
+        cpath = f.get("resolved") if f.get("resolved_local") else (f.get("path") if f.get("local") else None)
+        callee = prog.body(cpath) if cpath else None
+        if callee is None or callee.path not in only or len(t["args"]) != callee.arg_count or not inline.inlinable(prog, callee, root):
+            continue
+        if j is None:
+            j = copy.deepcopy(base.j)
+            blocks, locals_, vars_ = j["blocks"], j["locals"], j["vars"]
+            blk = blocks[bb]
+            t = blk["term"]
+        lo, bo = len(locals_), len(blocks)
+        locals_.extend(copy.deepcopy(callee.locals))
+        for v in callee.j["vars"]:
+            vars_.append({"name": v["name"], "place": inline._shift(v["place"], lo, 0)})
+        for k, a in enumerate(t["args"]):
+            blk["stmts"].append({"k": "assign", "place": {"l": lo + 1 + k, "p": []}, "rv": {"k": "use", "a": a}, "line": t.get("line", 0), "exp": False, "expk": "", "inl_arg": callee.path})
+        dest, target, line = t["dest"], t["t"], t.get("line", 0)
+        blk["term"] = {"k": "goto", "t": bo, "inl_call": callee.path, "line": line}
+        for i, cb in enumerate(callee.blocks):
+            nb = inline._shift(cb, lo, bo)
+            nb["inl_from"] = cb.get("inl_from") or callee.path
+            if nb["term"]["k"] == "return":
+                nb["stmts"].append({"k": "assign", "place": dest, "rv": {"k": "use", "a": {"k": "move", "place": {"l": lo, "p": []}}}, "line": line, "exp": False, "expk": "", "inl_ret": callee.path})
+                nb["term"] = {"k": "goto", "t": target} if target >= 0 else {"k": "unreachable"}
+            blocks.append(nb)
+            level[bo + i] = level.get(bb, 0) + 1
+            work.append(bo + i)
+    if j is None:
+        return base
+    return forward_refs(Body(j, prog))
+
+
+def forward_refs(body):
+    """Copy propagation of references in a freshly expanded body (its json is private to it): a reference local defined exactly once, as
+    `&[mut] P` or as a copy/move of another such local, is replaced where it is dereferenced by the place it points to, provided that place
+    is made of derefs and fields only (stable).  `(*_A).size` of an expanded `&mut self` helper then reads `(*_1).size`, the form under
+    which the struct invariant and the caller's facts are known to the abstract interpreter."""
+    from ..mir import Body
+    j = body.j
+    defs = defaultdict(list)
+    for b in j["blocks"]:
+        for s in b["stmts"]:
+            if s["k"] == "assign" and not s["place"]["p"]:
+                defs[s["place"]["l"]].append(s["rv"])
+        t = b["term"]
+        if t["k"] == "call" and not t["dest"]["p"]:
+            defs[t["dest"]["l"]].append(None)
+    argc = j["arg_count"]
+
+    def target(l, seen):
+        if l <= argc:
+            return None
+        if l in seen or len(defs.get(l, [])) != 1 or defs[l][0] is None or not str(body.local_ty(l)).startswith("&"):
+            return None
+        rv = defs[l][0]
+        if rv["k"] == "ref":
+            r = resolve({"l": rv["place"]["l"], "p": list(rv["place"]["p"])}, seen + (l,))
+        elif rv["k"] == "use" and rv["a"]["k"] in ("copy", "move") and not rv["a"]["place"]["p"]:
+            r = resolve({"l": rv["a"]["place"]["l"], "p": [{"k": "deref"}]}, seen + (l,))
+            if r["p"] and r["p"][0]["k"] == "deref" and r["l"] == rv["a"]["place"]["l"] and r["l"] > argc:
+                return None         # a reference of unknown origin: leave it
+        else:
+            return None
+        if r["l"] <= argc and defs.get(r["l"]):
+            return None             # an argument that is assigned to
+        return r if all(e["k"] in ("deref", "field") for e in r["p"]) else None
+
+    def resolve(p, seen=()):
+        if p["p"] and p["p"][0]["k"] == "deref":
+            tg = target(p["l"], seen)
+            if tg is not None:
+                return {"l": tg["l"], "p": tg["p"] + p["p"][1:]}
+        return p
+
+    def rewrite(n):
+        if isinstance(n, list):
+            for x in n:
+                rewrite(x)
+        elif isinstance(n, dict):
+            if isinstance(n.get("l"), int) and isinstance(n.get("p"), list) and n["p"] and isinstance(n["p"][0], dict) and n["p"][0].get("k") == "deref":
+                r = resolve(n)
+                n["l"], n["p"] = r["l"], r["p"]
+            for v in n.values():
+                rewrite(v)
+    for b in j["blocks"]:
+        rewrite(b["stmts"])
+        rewrite(b["term"])
+    return Body(j, body.prog)
+
+
+def expanded_view(prog, only):
+    """program in which the helpers named in `only` are expanded into their (sole) callers and no longer exist as bodies"""
+    repl, absorbed = {}, set()
+    for b in prog.bodies:
+        if b.path in only or not b.file.endswith(("decoder.rs", "encoder.rs")):
+            continue
+        ib = inline_only(prog, b.path, only)
+        if ib is not None and ib is not b:
+            repl[b.path] = ib
+            absorbed |= {blk["inl_from"] for blk in ib.blocks if blk.get("inl_from")}
+    if not repl:
+        return prog, set()
+    p2 = copy.copy(prog)
+    p2.bodies = []
+    for b in prog.bodies:
+        if b.path in absorbed:
+            continue
+        b = repl.get(b.path, b)
+        if b.closure_root in absorbed:          # a closure written in an expanded helper now belongs to the caller
+            nb = copy.copy(b)
+            r = b.closure_root
+            while r in absorbed and r in only:
+                r = only[r]
+            nb.closure_root = r
+            nb.j = dict(b.j, closure_root=r)
+            b = nb
+        p2.bodies.append(b)
+    p2.by_path = defaultdict(list)
+    for b in p2.bodies:
+        p2.by_path[b.path].append(b)
+    p2._cg = None
+    p2.__dict__.pop("_inl_cache", None)
+    return p2, absorbed
+
+
+def obligations(ctx):
+    """Numeric obligations of clauses (c)/(f): BOUNDS on `[u8;3]`/`[u8;64]`, RANGEIDX, overflow, copy_from_slice lengths — no panic in
+    Reach(Base64Decoder::read, Base64Encoder::{write,finish}) — discharged by the abstract interpreter under two inductive struct
+    invariants that are themselves proven (sa/structinv.py): encoder carry index in 0..=2, decoder 0 <= buffer_offset <= buffer_size <= 64.
+    The proof is modular: every method assumes the invariant and re-establishes it.  A private helper that was split off a method (all of its
+    call sites in one function) need not do so on its own; when the modular pass leaves something open, the helpers involved are expanded
+    into their callers (MIR inlining + forwarding of the `&mut self` reborrows) and the pass is repeated on that view of the program: a proof
+    of the expanded program is a proof of the program.  The first pass that discharges everything is the one reported."""
+    first = Recorder(ctx, ctx.prog)
+    _obligations(first)
+    if not first.failed:
+        first.replay()
+        return
+    helpers = sole_caller_helpers(ctx.prog)
+    failing = set(first.failed)
+    for b in ctx.prog.bodies:                       # a closure fails on behalf of the function it is written in
+        if b.path in failing and b.closure_root:
+            failing.add(b.closure_root)
+    own = {h: r for h, r in helpers.items() if h in failing}                    # helpers that do not stand on their own
+    callees = {h: r for h, r in helpers.items() if h in failing or r in failing}    # .. and helpers of functions that fail
+    tried = []
+    for only in (own, callees, helpers):
+        if not only or only in tried:
+            continue
+        tried.append(only)
+        view, absorbed = ctx.prog, set()
+        for _ in range(3):                          # helpers of helpers
+            view, ab = expanded_view(view, only)
+            if not ab:
+                break
+            absorbed |= ab
+        if not absorbed:
+            continue
+        rec = Recorder(ctx, view)
+        _obligations(rec)
+        if not rec.failed:
+            rec.replay()
+            ctx.note("numeric obligations established with the sole-caller helpers %s expanded into their callers" % sorted(absorbed))
+            return
+    first.replay()
 
 
 # =============================================================================================
@@ -89,17 +432,30 @@ def table_values(item):
     return None
 
 
+def const_table(ctx, cst):
+    """values of a byte-table constant: literal forms directly, anything else through the source evaluator"""
+    vs = table_values(cst[1])
+    if vs is None:
+        try:
+            v = SymInterp(ctx.src).const(None, cst[1]["name"], cst[0])
+        except ce.Unsupported:
+            return None
+        if isinstance(v, (bytes, list)) and all(_is_int(x) for x in v):
+            vs = list(v)
+    return vs
+
+
 def check_tables(ctx, ref, enc_name, dec_name):
     ctx.rule("ALPHABET", "encoder table row i == RFC 4648 §4 Table 1 row i (64 rows, exhaustive)", floor=64)
     ctx.rule("DECODE-INVERSE", "DECODE[ENCODE[i]] == i for all 64 i; DECODE['='] == 0; DECODE has 256 rows", floor=66)
     enc = dec = None
-    ce = ctx.src.const(enc_name) if enc_name else None
-    cd = ctx.src.const(dec_name) if dec_name else None
-    if ce is None or table_values(ce[1]) is None:
+    cst_e = ctx.src.const(enc_name) if enc_name else None
+    cst_d = ctx.src.const(dec_name) if dec_name else None
+    if cst_e is None or const_table(ctx, cst_e) is None:
         ctx.anchor("ALPHABET", "encoder-table", "the encoder's alphabet table %r is not a literal const" % enc_name)
     else:
-        enc = table_values(ce[1])
-        site = ["%s:%d" % (ce[0], ce[1]["line"])]
+        enc = const_table(ctx, cst_e)
+        site = ["%s:%d" % (cst_e[0], cst_e[1]["line"])]
         if len(enc) != 64:
             ctx.violation("ALPHABET", enc_name, "length", "%s has %d rows, RFC 4648 has 64" % (enc_name, len(enc)), sites=site)
         for i, ch in enumerate(ref["alphabet"]["chars"]):
@@ -107,11 +463,11 @@ def check_tables(ctx, ref, enc_name, dec_name):
             if i >= len(enc) or enc[i] != ord(ch):
                 ctx.violation("ALPHABET", enc_name, "row%d" % i,
                               "%s[%d] is %r, RFC 4648 value %d is %r" % (enc_name, i, chr(enc[i]) if i < len(enc) else None, i, ch), sites=site)
-    if cd is None or table_values(cd[1]) is None:
+    if cst_d is None or const_table(ctx, cst_d) is None:
         ctx.anchor("DECODE-INVERSE", "decoder-table", "the decoder's table %r is not a literal const" % dec_name)
     else:
-        dec = table_values(cd[1])
-        site = ["%s:%d" % (cd[0], cd[1]["line"])]
+        dec = const_table(ctx, cst_d)
+        site = ["%s:%d" % (cst_d[0], cst_d[1]["line"])]
         ctx.instance("DECODE-INVERSE", {"rows": len(dec)})
         if len(dec) != 256:
             ctx.violation("DECODE-INVERSE", dec_name, "length", "%s has %d rows; it is indexed by an arbitrary byte (256)" % (dec_name, len(dec)), sites=site)
@@ -130,282 +486,730 @@ def check_tables(ctx, ref, enc_name, dec_name):
 
 
 # =============================================================================================
-# (b) encoder: symbolic walk of write / finish over the source tree
+# (b) symbolic evaluation of the codec's source: concrete control state, symbolic data bytes
 # =============================================================================================
-class St:
-    def __init__(self):
-        self.env = {}        # bitflow env
-        self.arrays = {}     # name -> list of cells ('lit', v) | ('tab', table, bits, text, line)
-        self.iters = {}      # name -> [next position, exhausted]
-        self.alias = {}      # local name -> self.<field>
-        self.facts = []
-        self.emits = []      # (cells, line, receiver key)
-        self.noct = 0        # carry octets bound on this path
-        self.full = False    # all carry octets bound by a whole-array pattern
-        self.ended = False
+# The encoder / the two pure decoder functions are evaluated by `SymInterp`, a subclass of the shared source-level
+# evaluator `sa.consteval.Interp` (nothing of the repository is run): the *control* state is concrete (carry index
+# 0..3, number of input bytes, which chunk bytes are '='), every *data* byte is a symbol whose bits are tracked exactly
+# by `sa.bitflow`.  What is decided is therefore the meaning of the code (which bit of which octet reaches which
+# index bit of which emitted character, for every byte value), not the statements that compute it: helpers, array
+# literals vs element stores, `match` vs `if`, iterator vs index access, named constants, renamed / hoisted locals
+# all evaluate to the same values.  A data-dependent branch, an unknown method or operator raises `Unsupported`
+# (reported as an anchor: fail closed).
+class BV:
+    """symbolic unsigned integer: per-bit provenance (sa.bitflow), LSB first"""
+    __slots__ = ("bits",)
 
-    def clone(self):
-        s = St()
-        s.env = dict(self.env)
-        s.arrays = {k: list(v) for k, v in self.arrays.items()}
-        s.iters = {k: list(v) for k, v in self.iters.items()}
-        s.alias = dict(self.alias)
-        s.facts = list(self.facts)
-        s.emits = list(self.emits)
-        s.noct, s.full, s.ended = self.noct, self.full, self.ended
-        return s
+    def __init__(self, bits):
+        self.bits = list(bits)
+
+    def __repr__(self):
+        return "BV(%s)" % bf.render(self.bits)
 
 
-class EncWalk:
-    """Recognised idioms (everything else touching a tracked name raises Shape):
-       let Self{..} = self;  let mut dst = [b'='; 4];  let mut it = <carry>[..<size>].iter();
-       if let Some(x) = it.next() {..} else {..};  let [a, b, c] = <carry>;  let x = <bit expr>;
-       dst[k] = TABLE[<bit expr> as usize];  dst[k] = <byte literal>;  <w>.write_all(&dst)?;
-       for b in <buf>.iter().copied() {..};  if <cond> {..} else {..};  carry store / index inc / index reset."""
+class NonPad:
+    """a chunk byte of which only `!= '='` is known (size-from-padding function)"""
+    __slots__ = ("k",)
 
-    def __init__(self, carry, size, inner, ncarry):
-        self.carry, self.size, self.inner, self.ncarry = carry, size, inner, ncarry
-        self.tables = set()
+    def __init__(self, k):
+        self.k = k
 
-    # -- keys --
-    def key(self, e, st):
-        k = bf.key_of(e)
-        if k is None:
-            return None
-        head = k.split(".")[0].split("[")[0]
-        if head in st.alias:
-            k = st.alias[head] + k[len(head):]
-        return k
+    def __repr__(self):
+        return "<non-pad byte %d>" % self.k
 
-    def tracked(self, st):
-        t = set(st.arrays) | set(st.iters) | set(st.env) | set(st.alias)
-        return t
 
-    def mentions(self, node, st):
-        names = self.tracked(st)
-        hit = []
+class Table(bytes):
+    """value of a literal byte-table constant, remembering the constant's name"""
+    name = None
 
-        def f(n, parents):
-            if n.get("k") == "path" and n["p"] in names:
-                hit.append(n["p"])
-            if n.get("k") == "field" and n["e"].get("k") == "path" and n["e"]["p"] == "self" and n["name"] in (self.carry, self.size):
-                hit.append("self." + n["name"])
-        walk(node, f)
-        return hit
 
-    # -- blocks --
-    def run_block(self, stmts, states):
-        for stmt in stmts:
-            nxt = []
-            for s in states:
-                if s.ended:
-                    nxt.append(s)
-                else:
-                    nxt += self.step(stmt, s)
-            states = nxt
-        return states
+class Writer:
+    """an opaque io::Write object; write_all is recorded by the interpreter"""
 
-    def step(self, stmt, st):
-        k = stmt.get("k")
-        if k == "let":
-            return self.let(stmt, st)
-        if k == "expr":
-            return self.expr(stmt["e"], st)
-        if self.mentions(stmt, st):
-            raise Shape("statement of kind %s touches %s" % (k, self.mentions(stmt, st)))
-        return [st]
+    def __init__(self, name):
+        self.name = name
 
-    def let(self, stmt, st):
-        pat, init = stmt["pat"], stmt.get("init")
-        if init is None or stmt.get("else") is not None:
-            raise Shape("let without initialiser / let-else")
-        pk = pat.get("k")
-        if pk == "struct" and init.get("k") == "path" and init["p"] == "self":
-            for f in pat["fields"]:
-                p = f["pat"]
-                if p.get("k") != "ident":
-                    raise Shape("nested pattern in destructuring of self")
-                st.alias[p["name"]] = "self." + f["name"]
-            return [st]
-        ikey = self.key(init, st)
-        if pk == "ident":
-            name = pat["name"]
-            if init.get("k") == "repeat" or init.get("k") == "array":
-                vs = table_values({"expr": init})
-                if vs is None:
-                    raise Shape("array initialiser of %s is not literal" % name)
-                st.arrays[name] = [("lit", v) for v in vs]
-                return [st]
-            if init.get("k") == "mcall" and self.is_carry_iter(init, st):
-                st.iters[name] = [0, False]
-                return [st]
-            if ikey is not None and ikey in ("self." + self.carry, "self." + self.size, "self." + self.inner):
-                st.alias[name] = ikey
-                return [st]
-            try:
-                bf.bind_let(stmt, st.env)
-                return [st]
-            except bf.BitflowError as ex:
-                if self.mentions(init, st):
-                    raise Shape("let %s = %s: %s" % (name, expr_text(init), ex))
-                return [st]
-        if pk == "slice" and ikey == "self." + self.carry:
-            if len(pat["elems"]) != self.ncarry:
-                raise Shape("carry pattern has %d elements" % len(pat["elems"]))
-            for i, p in enumerate(pat["elems"]):
-                if p.get("k") == "wild":
-                    continue
-                if p.get("k") != "ident":
-                    raise Shape("carry pattern element")
-                st.env[p["name"]] = bf.sym("oct%d" % i, 8)
-            st.noct, st.full = self.ncarry, True
-            st.facts.append(("carry-array-pattern", self.ncarry))
-            return [st]
-        if self.mentions(stmt, st):
-            raise Shape("let pattern %s over %s" % (pk, expr_text(init)))
-        return [st]
+    def __repr__(self):
+        return "<writer %s>" % self.name
 
-    def is_carry_iter(self, e, st):
-        """<carry>[..<size>].iter() (optionally .copied()/.cloned())"""
-        if e["m"] in ("copied", "cloned") and e["recv"].get("k") == "mcall":
-            e = e["recv"]
-        if e["m"] != "iter" or e["args"]:
-            return False
-        r = e["recv"]
-        if r.get("k") != "index" or self.key(r["e"], st) != "self." + self.carry:
-            return False
-        rg = r["i"]
-        if rg.get("k") != "range" or rg.get("incl") or rg.get("hi") is None:
-            return False
-        if rg.get("lo") is not None and lit_int(rg["lo"]) != 0:
-            return False
-        if self.key(rg["hi"], st) != "self." + self.size:
-            raise Shape("carry iterated up to %s, not the carry index" % expr_text(rg["hi"]))
-        return True
 
-    def expr(self, e, st):
-        k = e.get("k")
-        if k == "if":
-            return self.if_(e, st)
-        if k in ("block", "unsafe"):
-            return self.run_block(e.get("stmts") or e.get("body", {}).get("stmts", []), [st])
-        if k == "for":
-            st.facts.append(("for", expr_text(e["iter"])))
-            if e["pat"].get("k") == "ident":
-                st.env.pop(e["pat"]["name"], None)
-            out = self.run_block(e["body"]["stmts"], [st])
-            return out
-        if k == "assign":
-            return self.assign(e, st)
-        if k == "try" and e["e"].get("k") == "mcall" and e["e"]["m"] == "write_all":
-            m = e["e"]
-            a = m["args"][0] if len(m["args"]) == 1 else None
-            an = bf.key_of(a) if a is not None else None
-            if an in st.arrays:
-                st.emits.append((list(st.arrays[an]), e["line"], self.key(m["recv"], st)))
-                return [st]
-        if k == "call" and e["f"].get("k") == "path" and e["f"]["p"] in ("Ok", "Err"):
-            st.ended = True
-            return [st]
-        if k == "return":
-            st.ended = True
-            return [st]
-        if k == "bin" and e["op"].endswith("=") and e["op"] not in ("==", "!=", "<=", ">="):
-            if self.key(e["l"], st) == "self." + self.size:
-                st.facts.append(("carry-index", e["op"], expr_text(e["r"])))
-                return [st]
-        if self.mentions(e, st):
-            raise Shape("expression `%s` touches %s" % (expr_text(e), sorted(set(self.mentions(e, st)))))
-        return [st]
+class SliceView:
+    """`base[lo..hi]` aliasing base (stores go through)"""
 
-    def if_(self, e, st):
-        c = e["cond"]
-        then, els = e["then"], e.get("else")
+    def __init__(self, base, lo, hi):
+        while isinstance(base, SliceView):
+            lo, hi, base = base.lo + lo, base.lo + hi, base.base
+        self.base, self.lo, self.hi = base, lo, hi
 
-        def run_else(s):
-            if els is None:
-                return [s]
-            return self.expr(els, s)
-        if c.get("k") == "letcond":
-            src = c["e"]
-            if src.get("k") == "mcall" and src["m"] == "next" and bf.key_of(src["recv"]) in st.iters:
-                it = bf.key_of(src["recv"])
-                pat = c["pat"]
-                if not (pat.get("k") == "tstruct" and pat["path"] == "Some" and len(pat["elems"]) == 1):
-                    raise Shape("pattern on next() is not Some(x)")
-                p = pat["elems"][0]
-                while p.get("k") == "ref":
-                    p = p["pat"]
-                if p.get("k") not in ("ident", "wild"):
-                    raise Shape("pattern on next() is not Some(x)")
-                out = []
-                pos, done = st.iters[it]
-                if not done and pos < self.ncarry:
-                    s1 = st.clone()
-                    if p.get("k") == "ident":
-                        s1.env[p["name"]] = bf.sym("oct%d" % pos, 8)
-                    s1.iters[it] = [pos + 1, False]
-                    s1.noct = pos + 1
-                    s1.facts.append(("some", pos))
-                    out += self.run_block(then["stmts"], [s1])
-                s2 = st.clone()
-                s2.iters[it] = [pos, True]
-                s2.facts.append(("none", pos))
-                out += run_else(s2)
-                return out
-            if self.mentions(c, st):
-                raise Shape("if-let on `%s`" % expr_text(src))
-        elif self.mentions(c, st) and not self.only_size(c, st):
-            raise Shape("condition `%s` depends on tracked data" % expr_text(c))
-        s1, s2 = st.clone(), st.clone()
-        s1.facts.append(("cond", self.norm(c, st), True))
-        s2.facts.append(("cond", self.norm(c, st), False))
-        return self.run_block(then["stmts"], [s1]) + run_else(s2)
+    def __len__(self):
+        return self.hi - self.lo
 
-    def only_size(self, c, st):
-        return all(m == "self." + self.size or st.alias.get(m) == "self." + self.size for m in self.mentions(c, st))
+    def __getitem__(self, i):
+        if not (0 <= i < len(self)):
+            raise IndexError(i)
+        return self.base[self.lo + i]
 
-    def norm(self, c, st):
-        if c.get("k") == "bin" and c["op"] in ("==", "!=", "<", "<=", ">", ">="):
-            l, r = self.key(c["l"], st), self.key(c["r"], st)
-            lv, rv = lit_int(c["l"]), lit_int(c["r"])
-            if l == "self." + self.size and rv is not None:
-                return ("size", c["op"], rv)
-            if r == "self." + self.size and lv is not None:
-                flip = {"<": ">", ">": "<", "<=": ">=", ">=": "<="}
-                return ("size", flip.get(c["op"], c["op"]), lv)
-        return ("other", expr_text(c))
+    def __setitem__(self, i, v):
+        if not (0 <= i < len(self)) or not isinstance(self.base, list):
+            raise IndexError(i)
+        self.base[self.lo + i] = v
 
-    def assign(self, e, st):
-        l, r = e["l"], e["r"]
-        if l.get("k") == "index" and bf.key_of(l["e"]) in st.arrays:
-            arr = st.arrays[bf.key_of(l["e"])]
-            i = lit_int(l["i"])
-            if i is None or not (0 <= i < len(arr)):
-                raise Shape("store to %s at non-literal index" % expr_text(l))
-            lv = lit_int(r)
-            if lv is not None and r.get("k") == "lit":
-                arr[i] = ("lit", lv)
-                return [st]
-            if r.get("k") == "index" and r["e"].get("k") == "path" and r["e"]["p"] not in self.tracked(st):
+    def __iter__(self):
+        return iter([self.base[i] for i in range(self.lo, self.hi)])
+
+
+class IterV:
+    """iterator over a snapshot of items.  Adaptors are evaluated eagerly on the remaining items; an iterator whose items went into an adaptor
+    is `spent`: using it again (possible in Rust after `by_ref()`, where a lazy or short-circuiting adaptor may leave items) is Unsupported"""
+
+    def __init__(self, items):
+        self.items = list(items)
+        self.pos = 0
+        self.spent = False
+
+    def _check(self):
+        if self.spent:
+            raise ce.Unsupported("an iterator is used again after an adaptor took its items (by_ref + adaptor is not modelled)")
+
+    def next(self):
+        self._check()
+        if self.pos < len(self.items):
+            self.pos += 1
+            return ce.some(self.items[self.pos - 1])
+        return ce.NONE
+
+    def rest(self, spend=False):
+        self._check()
+        r = self.items[self.pos:]
+        self.pos = len(self.items)
+        self.spent = spend
+        return r
+
+
+class ElemRef:
+    """`&mut base[i]` handed out by iter_mut(): `*r = v` stores through it"""
+
+    def __init__(self, base, i):
+        self.base, self.i = base, i
+
+    def get(self):
+        return self.base[self.i]
+
+    def set(self, v):
+        self.base[self.i] = v
+
+
+class _BreakL(ce._Break):
+    def __init__(self, label=None, value=()):
+        self.label, self.value = label, value
+
+
+class _ContinueL(ce._Continue):
+    def __init__(self, label=None):
+        self.label = label
+
+
+def _mine(ex, label):
+    """does this break / continue belong to the loop labelled `label`"""
+    l = getattr(ex, "label", None)
+    return l is None or l == label
+
+
+def is_cell(v):
+    return isinstance(v, tuple) and len(v) == 5 and v[0] == "tab"
+
+
+def _seq(v):
+    """items of a sequence value (None: not a sequence)"""
+    if isinstance(v, IterV):
+        return v.rest()
+    if isinstance(v, (list, SliceView, bytes)):
+        return list(v)
+    return None
+
+
+def _is_int(v):
+    return isinstance(v, int) and not isinstance(v, bool)
+
+
+def _is_opt(v, *names):
+    return isinstance(v, tuple) and not isinstance(v, ce.EnumV) and len(v) in (1, 2) and v and v[0] in names
+
+
+_CMP_OPS = ("==", "!=", "<", "<=", ">", ">=")
+_ASSERTS = ("assert", "debug_assert", "assert_eq", "debug_assert_eq", "assert_ne", "debug_assert_ne")
+_UINTS = ("u8", "u16", "u32", "u64", "u128", "usize")
+
+
+class SymInterp(ce.Interp):
+    def __init__(self, src):
+        super().__init__(src)
+        self.table_hook = None      # (Table, BV index, index node) -> value of `TABLE[<symbolic index>]`
+        self.compare_hook = None    # (op, a, b) -> bool for a comparison with a symbolic operand
+        self.emits = []             # (cells, line, writer)
+        self.local_consts = {}      # constants declared inside function bodies (by name)
+        for ty in _UINTS:
+            self.extern_fns[ty + "::from"] = (lambda args, ty=ty: self._cast(args[0], ty))
+        for pre in ("std::cmp::", "core::cmp::", "cmp::", "usize::", "Ord::"):
+            self.extern_fns[pre + "min"] = lambda a: self._minmax("min", a[0], a[1])
+            self.extern_fns[pre + "max"] = lambda a: self._minmax("max", a[0], a[1])
+
+    # ---- lookup: impl self types are compared without their generics -------------------------
+    @staticmethod
+    def _base(ty):
+        return re.sub(r"<.*$", "", ty).split("::")[-1] if ty else ty
+
+    def _find_fn(self, impl_self, name, impl_trait=None, file=None):
+        if impl_self is None:
+            return super()._find_fn(impl_self, name, impl_trait, file)
+        c = []
+        for (s, nm), lst in self._fn_index.items():
+            if nm == name and s is not None and self._base(s) == self._base(impl_self):
+                c += lst
+        if impl_trait is not None:
+            c = [x for x in c if x[1] is not None and ce._last(x[1]) == impl_trait]
+        if file is not None and len(c) > 1:
+            c = [x for x in c if x[0] == file]
+        return c[0] if len(c) == 1 else None
+
+    def const(self, impl_self, name, file=None):
+        v = super().const(impl_self, name, file)
+        if v is None and impl_self is not None:
+            out = [(f, it) for (f, s, it, t) in self.src.consts if it["name"] == name and not t and s is not None and self._base(s) == self._base(impl_self)]
+            if len(out) == 1:
+                v = self.eval(out[0][1]["expr"], ce.Frame({}, self._base(impl_self), out[0][0]))
+        if isinstance(v, (bytes, list)) and not isinstance(v, Table) and len(v) >= 16 and all(_is_int(x) and 0 <= x < 256 for x in v):
+            t = Table(bytes(v))
+            t.name = name
+            return t
+        return v
+
+    def call_item(self, item, impl_self, args, file=None, memo=True):
+        return super().call_item(item, self._base(impl_self), args, file, memo=False)
+
+    def run_item(self, item, impl_self, args, file=None):
+        """call_item for the rules: whatever goes wrong inside the evaluation is `Unsupported` (reported as an anchor)"""
+        try:
+            return self.call_item(item, impl_self, args, file)
+        except ce.Unsupported:
+            raise
+        except (ce._Break, ce._Continue):
+            raise ce.Unsupported("break/continue outside a loop")
+        except (TypeError, IndexError, KeyError, ValueError, AttributeError, ZeroDivisionError, RecursionError) as ex:
+            raise ce.Unsupported("evaluation failed (%s: %s)" % (type(ex).__name__, ex))
+
+    # ---- operators ----------------------------------------------------------------------------
+    def _bits_op(self, op, a, b):
+        env = {}
+        for nm, x in (("lhs", a), ("rhs", b)):
+            if isinstance(x, BV):
+                env[nm] = bf.Val(x.bits, False)
+            elif _is_int(x):
+                env[nm] = x
+            else:
+                raise ce.Unsupported("operator `%s` on %s" % (op, type(x).__name__))
+        node = {"k": "bin", "op": op, "l": {"k": "path", "p": "lhs"}, "r": {"k": "path", "p": "rhs"}}
+        try:
+            v = bf.evaluate(node, env)
+        except bf.BitflowError as ex:
+            raise ce.Unsupported(str(ex))
+        return BV(v.bits) if isinstance(v, bf.Val) else v.v
+
+    def binop(self, op, a, b, memo=True):
+        sa_, sb_ = isinstance(a, (BV, NonPad)) or is_cell(a), isinstance(b, (BV, NonPad)) or is_cell(b)
+        if sa_ or sb_:
+            if op in _CMP_OPS:
+                if self.compare_hook is not None:
+                    return self.compare_hook(op, a, b)
+                raise ce.Unsupported("comparison `%s` depends on a data byte" % op)
+            return self._bits_op(op, a, b)
+        if op == "-" and _is_int(a) and _is_int(b) and 0 <= a < b:
+            raise ce.Unsupported("%d - %d underflows (would panic; the codec computes with unsigned integers)" % (a, b))
+        return super().binop(op, a, b, memo)
+
+    def _e_bin(self, e, fr):
+        try:
+            return super()._e_bin(e, fr)
+        except ce.Unsupported as ex:
+            if str(ex).startswith("in `"):
+                raise
+            raise ce.Unsupported("in `%s`: %s" % (expr_text(e), ex))
+
+    def _cast(self, v, ty):
+        if isinstance(v, BV):
+            if ty not in _UINTS:
+                raise ce.Unsupported("cast of a data byte to " + ty)
+            return BV(bf.zext(v.bits, bf.TYPES[ty][0]))
+        if ty in ce._INT_TY and isinstance(v, (int, float)):
+            return int(v) & ((1 << ce._INT_TY[ty]) - 1) if isinstance(v, int) else max(0, min(int(v), (1 << ce._INT_TY[ty]) - 1))
+        if ty == "u128" and _is_int(v) and v >= 0:
+            return v
+        if ty in ("f32", "f64") and isinstance(v, (int, float)):
+            return float(v)
+        if re.fullmatch(r"i(8|16|32|64|size)", ty) and _is_int(v):
+            return v
+        raise ce.Unsupported("cast to " + ty)
+
+    def _e_cast(self, e, fr):
+        return self._cast(self.eval(e["e"], fr), e["ty"].replace(" ", ""))
+
+    def _e_un(self, e, fr):
+        if e["op"] == "*":
+            return ce.copyv(self.place(e, fr))
+        return super()._e_un(e, fr)
+
+    def _minmax(self, which, a, b):
+        if _is_int(a) and _is_int(b):
+            return min(a, b) if which == "min" else max(a, b)
+        raise ce.Unsupported("%s of non-integers / data bytes" % which)
+
+    # ---- places -------------------------------------------------------------------------------
+    def place(self, e, fr):
+        if e["k"] == "un" and e["op"] == "*":
+            v = self.place(e["e"], fr)
+            return v.get() if isinstance(v, ElemRef) else v
+        if e["k"] != "index":
+            return super().place(e, fr)
+        b = self.place(e["e"], fr)
+        if isinstance(b, ElemRef):
+            b = b.get()
+        ie = e["i"]
+        if ie.get("k") == "range":
+            if not isinstance(b, (list, bytes, SliceView)):
+                raise ce.Unsupported("range index of a non-array")
+            lo = self.eval(ie["lo"], fr) if ie.get("lo") else 0
+            hi = (self.eval(ie["hi"], fr) + (1 if ie.get("incl") else 0)) if ie.get("hi") else len(b)
+            if not (_is_int(lo) and _is_int(hi) and 0 <= lo <= hi <= len(b)):
+                raise ce.Unsupported("slice range %r..%r out of bounds of %d elements (would panic)" % (lo, hi, len(b)))
+            return SliceView(b, lo, hi)
+        i = self.eval(ie, fr)
+        if isinstance(i, BV):
+            if isinstance(b, Table) and self.table_hook is not None:
+                return self.table_hook(b, i, e)
+            raise ce.Unsupported("data-dependent index into `%s`" % expr_text(e["e"]))
+        if isinstance(b, (list, bytes, SliceView)) and _is_int(i) and 0 <= i < len(b):
+            return b[i]
+        raise ce.Unsupported("index `%s` out of range or not an array (would panic)" % expr_text(e))
+
+    def store(self, e, fr, v):
+        if e["k"] == "index":
+            b = self.place(e["e"], fr)
+            i = self.eval(e["i"], fr)
+            if isinstance(b, (list, SliceView)) and _is_int(i) and 0 <= i < len(b):
                 try:
-                    bits = bf.provenance(r["i"], st.env, 64)
-                except bf.BitflowError as ex:
-                    raise Shape("index of %s: %s" % (r["e"]["p"], ex))
-                self.tables.add(r["e"]["p"])
-                arr[i] = ("tab", r["e"]["p"], bits, expr_text(r["i"]), e["line"])
-                return [st]
-            raise Shape("value stored to %s not understood: %s" % (expr_text(l), expr_text(r)))
-        lk = self.key(l, st)
-        if l.get("k") == "index" and self.key(l["e"], st) == "self." + self.carry:
-            st.facts.append(("carry-store", expr_text(l["i"])))
-            return [st]
-        if lk == "self." + self.size:
-            st.facts.append(("carry-index", "=", expr_text(r)))
-            return [st]
-        if self.mentions(l, st):
-            raise Shape("assignment to `%s`" % expr_text(l))
-        return [st]
+                    b[i] = v
+                    return
+                except IndexError:
+                    pass
+            raise ce.Unsupported("store to `%s` out of range / not an array (would panic)" % expr_text(e))
+        if e["k"] == "un" and e["op"] == "*":
+            tgt = self.place(e["e"], fr)
+            if isinstance(tgt, ElemRef):
+                tgt.set(v)
+                return
+            if e["e"].get("k") == "path" and e["e"]["p"] in fr.vars and not isinstance(tgt, (ce.StructV, list, SliceView)):
+                raise ce.Unsupported("store through the reference `%s`" % e["e"]["p"])
+        return super().store(e, fr, v)
+
+    # ---- expression kinds missing in the base evaluator ------------------------------------------
+    def _e_block(self, e, fr):
+        for s in e.get("stmts") or []:      # constants declared inside a block are visible in all of it
+            it = s.get("item") if s.get("k") == "item" else None
+            if isinstance(it, dict) and it.get("k") in ("const", "static") and it.get("expr") is not None:
+                fr.vars[it["name"]] = self.local_consts[it["name"]] = self.eval(it["expr"], fr)
+        if e.get("label"):
+            try:
+                return super()._e_block(e, fr)
+            except ce._Break as ex:
+                if getattr(ex, "label", None) != e["label"]:
+                    raise
+                return getattr(ex, "value", ())
+        return super()._e_block(e, fr)
+
+    def _e_repeat(self, e, fr):
+        v, n = self.eval(e["e"], fr), self.eval(e["n"], fr)
+        if not _is_int(n) or n < 0 or n > 4096:
+            raise ce.Unsupported("repeat length")
+        return [ce.copyv(v) for _ in range(n)]
+
+    def _e_break(self, e, fr):
+        raise _BreakL(e.get("label"), self.eval(e["e"], fr) if e.get("e") else ())
+
+    def _e_continue(self, e, fr):
+        raise _ContinueL(e.get("label"))
+
+    def _body(self, e, fr):
+        """one iteration: 'break' (with .value) / 'next'"""
+        try:
+            self.eval(e["body"], fr)
+        except ce._Break as ex:
+            if not _mine(ex, e.get("label")):
+                raise
+            return ("break", getattr(ex, "value", ()))
+        except ce._Continue as ex:
+            if not _mine(ex, e.get("label")):
+                raise
+        return ("next", ())
+
+    def _e_loop(self, e, fr):
+        for _ in range(100000):
+            r = self._body(e, fr)
+            if r[0] == "break":
+                return r[1]
+        raise ce.Unsupported("loop bound")
+
+    def _e_while(self, e, fr):
+        for _ in range(100000):
+            if not self._cond(e["cond"], fr):
+                return ()
+            if self._body(e, fr)[0] == "break":
+                return ()
+        raise ce.Unsupported("loop bound")
+
+    def _e_for(self, e, fr):
+        it = self.eval(e["iter"], fr)
+        if not isinstance(it, IterV):
+            items = _seq(it)
+            if items is None:
+                raise ce.Unsupported("for over `%s`" % expr_text(e["iter"]))
+            it = IterV(items)
+        while True:                         # item by item: a `break` leaves the rest in the iterator
+            o = it.next()
+            if o == ce.NONE:
+                break
+            if not self.match_pat(e["pat"], o[1], fr.vars):
+                raise ce.Unsupported("refutable for pattern")
+            if self._body(e, fr)[0] == "break":
+                break
+        return ()
+
+    def _e_macro(self, e, fr):
+        if e.get("short") in _ASSERTS:
+            # an assertion that holds changes nothing; whether it can fail is a panic-freedom question (obligations())
+            args = e.get("args") or []
+            try:
+                if e["short"].endswith("_eq") and len(args) >= 2:
+                    ok = self.binop("==", self.eval(args[0], fr), self.eval(args[1], fr))
+                elif e["short"].endswith("_ne") and len(args) >= 2:
+                    ok = self.binop("!=", self.eval(args[0], fr), self.eval(args[1], fr))
+                else:
+                    ok = self.eval(args[0], fr) if args else True
+            except ce.Unsupported:
+                return ()
+            if ok is False:
+                raise ce.Unsupported("`%s!` fails on a reachable state" % e["short"])
+            return ()
+        return super()._e_macro(e, fr)
+
+    # ---- patterns -----------------------------------------------------------------------------
+    _NOCONST = object()
+
+    def _const_of_ident(self, p):
+        """An identifier pattern that names a constant in scope is a constant pattern, not a binding (`BASE64_PAD => ..`); constants are
+        the SCREAMING_CASE names that resolve to exactly one const item of the crate / of the enclosing blocks."""
+        name = p["name"]
+        if p.get("sub") or p.get("by_ref") or p.get("mut") or not re.fullmatch(r"[A-Z][A-Z0-9_]*", name):
+            return self._NOCONST
+        if name in self.local_consts:
+            return self.local_consts[name]
+        cands = [(f, it) for (f, s_, it, t) in self.src.consts if it["name"] == name and not t and s_ is None]
+        if len(cands) == 1:
+            v = self.const(None, name, cands[0][0])
+            if v is not None:
+                return v
+        return self._NOCONST
+
+    def match_pat(self, p, v, binds):
+        k = p["k"]
+        if k == "struct":
+            if not isinstance(v, ce.StructV):
+                raise ce.Unsupported("struct pattern on a non-struct")
+            for f in p["fields"]:
+                if f["name"] not in v.fields:
+                    raise ce.Unsupported("field " + f["name"])
+                if not self.match_pat(f["pat"], v.fields[f["name"]], binds):
+                    return False
+            return True
+        cv = self._NOCONST
+        if k == "ident":
+            cv = self._const_of_ident(p)
+        elif k == "lit":
+            cv = self._lit(p["e"])
+        elif k == "path" and (isinstance(v, (BV, NonPad)) or is_cell(v)):
+            cv = self._path_value(p["p"], ce.Frame())
+        if isinstance(v, (BV, NonPad)) or is_cell(v):
+            if cv is not self._NOCONST:
+                if self.compare_hook is not None:
+                    return self.compare_hook("==", v, cv)
+                raise ce.Unsupported("pattern `%s` tests a data byte" % pat_text(p))
+            if k in ("range", "path"):
+                raise ce.Unsupported("pattern `%s` tests a data byte" % pat_text(p))
+        elif k == "ident" and cv is not self._NOCONST:
+            return type(cv) is type(v) and cv == v
+        if k in ("slice", "tuple") and isinstance(v, (SliceView, bytes)):
+            v = list(v)
+        if k == "slice" and isinstance(v, list):
+            el = p["elems"]
+            ri = [i for i, x in enumerate(el) if x["k"] == "rest" or (x["k"] == "ident" and (x.get("sub") or {}).get("k") == "rest")]
+            if len(ri) == 1:                # [a, b, ..] / [first, .., last] / [head, tail @ ..]
+                r = ri[0]
+                before, after = el[:r], el[r + 1:]
+                if len(v) < len(before) + len(after):
+                    return False
+                mid = v[len(before):len(v) - len(after)]
+                if el[r]["k"] == "ident":
+                    binds[el[r]["name"]] = mid
+                return (all(self.match_pat(x, y, binds) for x, y in zip(before, v)) and
+                        all(self.match_pat(x, y, binds) for x, y in zip(after, v[len(v) - len(after):])))
+        return super().match_pat(p, v, binds)
+
+    def call_closure(self, c, args):
+        """closure call on a copy of the defining frame (base evaluator): a closure that reassigns a captured local is not modelled"""
+        if len(c.params) != len(args):
+            raise ce.Unsupported("closure arity")
+        fr = ce.Frame(dict(c.frame.vars), c.frame.self_ty, c.frame.file)
+        own = set()
+        for p, a in zip(c.params, args):
+            own |= set(ce.pat_names(p))
+            if not self.match_pat(p, a, fr.vars):
+                raise ce.Unsupported("refutable closure parameter")
+        try:
+            r = self.eval(c.body, fr)
+        except ce._Return as ret:
+            r = ret.v
+        for name, v in c.frame.vars.items():
+            if name not in own and fr.vars.get(name) is not v and not (type(v) in (int, bool) and fr.vars.get(name) == v):
+                raise ce.Unsupported("closure reassigns the captured local `%s`" % name)
+        return r
+
+    def _e_call(self, e, fr):
+        f = e["f"]
+        m = re.search(r"(^|::)mem::(replace|take|swap)$", f["p"]) if f.get("k") == "path" else None
+        if m:
+            args = e.get("args") or []
+            refs = [a["e"] for a in args if a.get("k") == "ref" and a.get("mut")]
+            kind = m.group(2)
+            if kind == "replace" and len(args) == 2 and len(refs) >= 1 and args[0].get("k") == "ref":
+                old = ce.copyv(self.place(refs[0], fr))
+                self.store(refs[0], fr, self.eval(args[1], fr))
+                return old
+            if kind == "take" and len(args) == 1 and len(refs) == 1:
+                old = ce.copyv(self.place(refs[0], fr))
+                if not _is_int(old) and not isinstance(old, bool):
+                    raise ce.Unsupported("mem::take of a non-integer")
+                self.store(refs[0], fr, False if isinstance(old, bool) else 0)
+                return old
+            if kind == "swap" and len(args) == 2 and len(refs) == 2:
+                a0, a1 = ce.copyv(self.place(refs[0], fr)), ce.copyv(self.place(refs[1], fr))
+                self.store(refs[0], fr, a1)
+                self.store(refs[1], fr, a0)
+                return ()
+            raise ce.Unsupported("call `%s`" % expr_text(e))
+        if f.get("k") == "path" and f["p"].split("::")[-1] == "Err" and len(e.get("args") or []) == 1:
+            try:                            # the payload of an error is not looked at
+                v = self.eval(e["args"][0], fr)
+            except ce.Unsupported:
+                v = Opaque("error value")
+            return ("Err", v)
+        return super()._e_call(e, fr)
+
+    # ---- method calls (the receiver is evaluated exactly once) ------------------------------------
+    def _e_mcall(self, e, fr):
+        m = e["m"]
+        recv = self.place(e["recv"], fr)
+        args_e = e.get("args") or []
+        ty = recv.ty if isinstance(recv, (ce.StructV, ce.EnumV)) else None
+        if ty is not None:
+            fn = self.find_fn(ty, m)
+            if fn is not None:
+                return self._apply(fn, ty, args_e, fr, recv=recv)
+        args = [self.place(a, fr) for a in args_e]
+        n = len(args)
+        if isinstance(recv, Writer):
+            if m == "write_all" and n == 1:
+                items = _seq(args[0]) if not isinstance(args[0], IterV) else None
+                if items is None:
+                    raise ce.Unsupported("write_all of a non-slice")
+                self.emits.append(([x if is_cell(x) else (("lit", x) if _is_int(x) else ("raw", x)) for x in items], e["line"], recv))
+                return ("Ok", ())
+            if m == "flush" and n == 0:
+                return ("Ok", ())
+            if m in ("by_ref", "borrow_mut") and n == 0:
+                return recv
+            raise ce.Unsupported("method %s on the inner writer" % m)
+        if isinstance(recv, Reader):
+            if m == "read" and n == 1 and isinstance(args[0], (list, SliceView)):
+                return recv.read(args[0])
+            if m in ("by_ref", "borrow_mut") and n == 0:
+                return recv
+            raise ce.Unsupported("method %s on the inner reader" % m)
+        if isinstance(recv, (list, SliceView, bytes)):
+            if m in ("iter", "into_iter") and n == 0:
+                return IterV(recv)
+            if m == "len" and n == 0:
+                return len(recv)
+            if m == "is_empty" and n == 0:
+                return len(recv) == 0
+            if m in ("first", "last") and n == 0:
+                return ce.some(recv[0 if m == "first" else len(recv) - 1]) if len(recv) else ce.NONE
+            if m == "get" and n == 1 and _is_int(args[0]):
+                return ce.some(recv[args[0]]) if 0 <= args[0] < len(recv) else ce.NONE
+            if m in ("as_slice", "as_ref", "as_mut", "as_mut_slice", "borrow") and n == 0:
+                return recv
+            if m in ("to_vec", "to_owned", "clone") and n == 0:
+                return [ce.copyv(x) for x in recv]
+            if m in ("copy_from_slice", "clone_from_slice") and n == 1 and isinstance(recv, (list, SliceView)):
+                src_ = _seq(args[0]) if not isinstance(args[0], IterV) else None
+                if src_ is None or len(src_) != len(recv):
+                    raise ce.Unsupported("copy_from_slice with different lengths (would panic)")
+                for i, x in enumerate(src_):
+                    recv[i] = x
+                return ()
+            if m == "fill" and n == 1 and isinstance(recv, (list, SliceView)):
+                for i in range(len(recv)):
+                    recv[i] = ce.copyv(args[0])
+                return ()
+            if m in ("chunks", "chunks_exact") and n == 1 and _is_int(args[0]) and args[0] > 0:
+                c = args[0]
+                stop = len(recv) if m == "chunks" else len(recv) - len(recv) % c
+                return IterV([SliceView(recv, i, min(i + c, stop)) for i in range(0, stop, c)])
+            if m == "contains" and n == 1 and _is_int(args[0]) and all(_is_int(x) for x in recv):
+                return args[0] in list(recv)
+            if m == "iter_mut" and n == 0 and isinstance(recv, (list, SliceView)):
+                return IterV([ElemRef(recv, i) for i in range(len(recv))])
+            if m in ("split_at", "split_at_mut") and n == 1 and _is_int(args[0]):
+                if not 0 <= args[0] <= len(recv):
+                    raise ce.Unsupported("split_at out of bounds (would panic)")
+                return (SliceView(recv, 0, args[0]), SliceView(recv, args[0], len(recv)))
+            if m == "copy_within" and n == 2 and isinstance(recv, (list, SliceView)) and isinstance(args[0], list) and _is_int(args[1]):
+                idx = args[0]
+                if not all(_is_int(i) and 0 <= i < len(recv) for i in idx) or not 0 <= args[1] <= len(recv) - len(idx):
+                    raise ce.Unsupported("copy_within out of bounds (would panic)")
+                vals = [recv[i] for i in idx]
+                for k_, v_ in enumerate(vals):
+                    recv[args[1] + k_] = v_
+                return ()
+        if isinstance(recv, IterV):
+            if m == "next" and n == 0:
+                return recv.next()
+            if m in ("copied", "cloned", "by_ref", "into_iter", "iter", "fuse") and n == 0:
+                return recv
+            if m == "enumerate" and n == 0:
+                return IterV([(i, x) for i, x in enumerate(recv.rest(True))])
+            if m == "rev" and n == 0:
+                return IterV(list(reversed(recv.rest(True))))
+            if m in ("take", "skip") and n == 1 and _is_int(args[0]) and args[0] >= 0:
+                r = recv.rest(True)
+                return IterV(r[:args[0]] if m == "take" else r[args[0]:])
+            if m == "zip" and n == 1:
+                other = args[0].rest(True) if isinstance(args[0], IterV) else _seq(args[0])
+                if other is not None:
+                    return IterV(list(zip(recv.rest(True), other)))
+            if m in ("len", "count") and n == 0:
+                return len(recv.items) - recv.pos if m == "len" else len(recv.rest())
+            fcl = args[n - 1] if n and isinstance(args[n - 1], ce.ClosureV) else None
+            if fcl is not None and n == 1:
+                # closure adaptors, evaluated eagerly over the remaining items (the closures of this code are pure or act on `self`)
+                if m == "for_each":
+                    for x in recv.rest():
+                        self.call_closure(fcl, [x])
+                    return ()
+                if m == "try_for_each":
+                    for x in recv.rest(True):
+                        r = self.call_closure(fcl, [x])
+                        if not _is_opt(r, "Ok", "Some"):
+                            return r
+                    return ("Ok", ())
+                if m == "map":
+                    return IterV([self.call_closure(fcl, [x]) for x in recv.rest(True)])
+                if m in ("filter", "take_while", "skip_while", "position", "any", "all", "find"):
+                    items = recv.rest(True)
+                    flags = []
+                    for x in items:
+                        t = self.call_closure(fcl, [x])
+                        if not isinstance(t, bool):
+                            raise ce.Unsupported("predicate of `%s` is not a bool" % m)
+                        flags.append(t)
+                        if (m in ("take_while", "all") and not t) or (m in ("position", "any", "find", "skip_while") and t == (m != "skip_while")):
+                            break
+                    k = len(flags)
+                    if m == "filter":
+                        return IterV([x for x, t in zip(items, flags) if t])
+                    if m == "take_while":
+                        return IterV(items[:k - 1] if flags and not flags[-1] else items[:k])
+                    if m == "skip_while":
+                        return IterV(items[k - 1:] if flags and not flags[-1] else [])
+                    if m == "any":
+                        return bool(flags) and flags[-1]
+                    if m == "all":
+                        return not flags or flags[-1]
+                    hit = bool(flags) and flags[-1]
+                    if m == "position":
+                        return ce.some(k - 1) if hit else ce.NONE
+                    return ce.some(items[k - 1]) if hit else ce.NONE
+                if m == "find_map":
+                    for x in recv.rest(True):
+                        r = self.call_closure(fcl, [x])
+                        if r != ce.NONE:
+                            return r
+                    return ce.NONE
+            if fcl is not None and n == 2 and m in ("fold", "try_fold"):
+                acc = args[0]
+                for x in recv.rest(True):
+                    acc = self.call_closure(fcl, [acc, x])
+                    if m == "try_fold":
+                        if not _is_opt(acc, "Ok", "Some") or len(acc) != 2:
+                            return acc
+                        acc = acc[1]
+                return acc if m == "fold" else ("Ok", acc)
+            if m == "sum" and n == 0:
+                r = recv.rest()
+                if all(_is_int(x) for x in r):
+                    return sum(r)
+            if m == "last" and n == 0:
+                r = recv.rest()
+                return ce.some(r[-1]) if r else ce.NONE
+            if m == "nth" and n == 1 and _is_int(args[0]) and args[0] >= 0:
+                r = recv.rest()
+                recv.items, recv.pos = r, min(len(r), args[0] + 1)
+                return ce.some(r[args[0]]) if args[0] < len(r) else ce.NONE
+        if _is_int(recv):
+            if m in ("min", "max") and n == 1:
+                return self._minmax(m, recv, args[0])
+            if m == "clamp" and n == 2 and _is_int(args[0]) and _is_int(args[1]) and args[0] <= args[1]:
+                return max(args[0], min(recv, args[1]))
+            if m in ("wrapping_add", "saturating_add") and n == 1 and _is_int(args[0]) and recv + args[0] < (1 << 32):
+                return recv + args[0]
+            if m == "saturating_sub" and n == 1 and _is_int(args[0]):
+                return max(0, recv - args[0])
+            if m == "abs" and n == 0:
+                return abs(recv)
+        if _is_opt(recv, "Some", "None", "Ok", "Err"):
+            if m in ("unwrap", "expect") and _is_opt(recv, "Some", "Ok") and len(recv) == 2:
+                return recv[1]
+            if m == "unwrap_or" and n == 1:
+                return recv[1] if _is_opt(recv, "Some", "Ok") and len(recv) == 2 else args[0]
+            if m in ("copied", "cloned", "as_ref", "as_mut") and n == 0:
+                return recv
+            if m == "is_some" and n == 0:
+                return recv != ce.NONE
+            if m == "is_none" and n == 0:
+                return recv == ce.NONE
+            if m == "is_ok" and n == 0:
+                return recv[0] == "Ok"
+            if m == "is_err" and n == 0:
+                return recv[0] == "Err"
+            if m == "ok" and n == 0 and recv[0] in ("Ok", "Err"):
+                return ce.some(recv[1]) if recv[0] == "Ok" else ce.NONE
+            if m == "map" and n == 1 and isinstance(args[0], ce.ClosureV) and recv[0] in ("Some", "None"):
+                return ce.some(self.call_closure(args[0], [recv[1]])) if recv[0] == "Some" else ce.NONE
+            if m == "map_err" and n == 1 and recv[0] in ("Ok", "Err"):
+                return recv if recv[0] == "Ok" else ("Err", Opaque("mapped error"))
+        if m in ("clone", "to_owned") and n == 0:
+            return ce.copyv(recv)
+        if m == "into" and n == 0 and (_is_int(recv) or isinstance(recv, BV)):
+            return recv             # a lossless widening; the width is fixed where the value is used (table index: usize)
+        raise ce.Unsupported("method `%s` on %s" % (m, ty or type(recv).__name__))
 
 
 def encoder_fields(ctx):
@@ -424,20 +1228,21 @@ def encoder_fields(ctx):
             inner = f["name"]
     if None in (carry, size, inner):
         return None
-    return carry, size, inner, n
+    return carry, size, inner, n, [f["name"] for f in s[1]["fields"]]
 
 
-def expected_char(ref, k, noct):
-    """expected index bits (LSB first, 64 wide) of output char k when noct octets are present"""
+def expected_char(ref, k, octs):
+    """expected index bits (LSB first, 64 wide) of output char k; octs = symbol names of the octets present"""
     bits = []
     for j in range(6):
         o, b = ref["sx"][(k, j)]
-        bits.append(("oct%d" % o, b) if o < noct else 0)
+        bits.append((octs[o], b) if o < len(octs) else 0)
     return bits + [0] * 58
 
 
-def check_emit(ctx, ref, fn, shape, cells, noct, line, enc_table):
-    """one emitted quantum with noct carry octets: chars, zero fill, padding"""
+def check_emit(ctx, ref, fn, shape, cells, octs, line, enc_table, quiet=False):
+    """one emitted quantum made of the octets named octs: chars, zero fill, padding (quiet: no instances, for the extra runs)"""
+    noct = len(octs)
     case = [c for c in ref["final_quantum"]["cases"] if c["octets"] == noct][0]
     site = ["%s:%d" % (fn[0], line)]
     if len(cells) != 4:
@@ -445,14 +1250,16 @@ def check_emit(ctx, ref, fn, shape, cells, noct, line, enc_table):
         return
     for k in range(4):
         c = cells[k]
+        what = repr(chr(c[1])) if c[0] == "lit" else ("a data character `%s`" % c[3] if c[0] == "tab" else "the raw value %r" % (c[1],))
         if k < case["chars"]:
-            exp = expected_char(ref, k, noct)
+            exp = expected_char(ref, k, octs)
             got = c[2] if c[0] == "tab" else None
-            ctx.instance("ENC-BITS", {"fn": fn[1], "shape": shape, "char": k, "index_bits": bf.render(got[:8]) if got else str(c[:2]),
-                                      "rfc": bf.render(exp[:8]), "expr": c[3] if c[0] == "tab" else None})
+            if not quiet:
+                ctx.instance("ENC-BITS", {"fn": fn[1], "shape": shape, "char": k, "index_bits": bf.render(got[:8]) if got else str(c[:2]),
+                                          "rfc": bf.render(exp[:8]), "expr": c[3] if c[0] == "tab" else None})
             if c[0] != "tab":
                 ctx.violation("ENC-BITS", fn[1], "%s:char%d" % (shape, k),
-                              "character %d of a %d-octet quantum is the constant %r, RFC 4648 needs a data character" % (k, noct, chr(c[1])), sites=site)
+                              "character %d of a %d-octet quantum is %s, RFC 4648 needs a data character" % (k, noct, what), sites=site)
             elif c[1] != enc_table:
                 ctx.violation("ENC-BITS", fn[1], "%s:char%d" % (shape, k), "character %d is looked up in %s, not in the alphabet table %s" % (k, c[1], enc_table), sites=["%s:%d" % (fn[0], c[4])])
             elif got != exp:
@@ -461,79 +1268,166 @@ def check_emit(ctx, ref, fn, shape, cells, noct, line, enc_table):
                                   k, noct, c[3], bf.render(got[:8]) + (" (high bits set)" if got[8:] != exp[8:] else ""), bf.render(exp[:8])),
                               sites=["%s:%d" % (fn[0], c[4])])
         else:
-            ctx.instance("ENC-PAD", {"fn": fn[1], "shape": shape, "char": k, "cell": str(c[:2])})
+            if not quiet:
+                ctx.instance("ENC-PAD", {"fn": fn[1], "shape": shape, "char": k, "cell": str(c[:2])})
             if not (c[0] == "lit" and c[1] == ref["padv"]):
                 ctx.violation("ENC-PAD", fn[1], "%s:char%d" % (shape, k),
-                              "character %d of a %d-octet final quantum must be '=' (RFC 4648: %d pad characters), found %s" % (
-                                  k, noct, case["pads"], repr(chr(c[1])) if c[0] == "lit" else "a data character `%s`" % c[3]), sites=site)
+                              "character %d of a %d-octet final quantum must be '=' (RFC 4648: %d pad characters), found %s" % (k, noct, case["pads"], what), sites=site)
+
+
+# (carry index before the call, number of bytes written): the first three are the inductive step (one byte in every carry state:
+# exhaustive, because control flow cannot depend on the symbolic data); the others check that longer inputs are the same steps
+# repeated whatever the chunking / fast paths of the loop (lengths around the usual block sizes 3, 4, 8, 16, 32, 64)
+WRITE_RUNS = [(0, 1), (1, 1), (2, 1), (0, 0), (2, 0), (0, 3), (0, 4), (1, 2), (1, 6), (2, 2), (2, 5), (0, 7), (1, 8), (0, 9),
+              (2, 15), (0, 16), (1, 17), (2, 31), (0, 33), (1, 64), (0, 65)]
 
 
 def check_encoder(ctx, ref):
-    ctx.rule("ENC-BITS", "each data character of write / finish(1,2,3 octets) is ALPHABET[index] with index bits == RFC 4648 regrouping, zero filled", floor=13)
+    ctx.rule("ENC-BITS", "each data character of write / finish(1,2,3 octets) is ALPHABET[index] with index bits == RFC 4648 regrouping, zero filled", floor=9)
     ctx.rule("ENC-PAD", "pad positions are '=' (1 octet: 2, 2 octets: 1, 3: 0); nothing is emitted for 0 octets / before the carry is full", floor=5)
+    ctx.rule("CARRY", "write(n bytes) in carry state s: the bytes are appended to the carry in order, every completed group of 3 is emitted exactly once to the "
+                      "inner writer, the new carry index is (s + n) mod 3 and Ok(n) is returned (symbolic bytes; s = 0,1,2; n = 0..65); new(): index 0; Ok(buf.len())", floor=23)
     fl = encoder_fields(ctx)
     wr = ctx.src.fn("write", impl_self=r"Base64Encoder.*", impl_trait=r".*Write")
     fi = ctx.src.fn("finish", impl_self=r"Base64Encoder.*")
     if fl is None or wr is None or fi is None:
         ctx.anchor("ENC-BITS", "Base64Encoder", "struct Base64Encoder{inner, [u8;N] carry, usize index} / write / finish not found")
         return None, {}
-    carry, size, inner, n = fl
+    carry, size, inner, n, order = fl
     if n != ref["quantum"]["octets"]:
         ctx.violation("ENC-BITS", "encoder::Base64Encoder", "carry-size", "carry buffer holds %d octets, a quantum has 3" % n)
-    pads_by_noct = {}
+        return None, {}
+    it = SymInterp(ctx.src)
     tables = set()
-    for which, fn in (("write", wr), ("finish", fi)):
-        path = "encoder::Base64Encoder::" + which
-        w = EncWalk(carry, size, inner, n)
+
+    def hook(tab, idx, node):
+        tables.add(tab.name)
+        return ("tab", tab.name, bf.zext(idx.bits, 64), expr_text(node["i"]), node["line"])
+    it.table_hook = hook
+
+    def fresh(size0, stream):
+        """encoder object whose carry holds the first size0 stream symbols; the other slots hold stale bytes"""
+        w = Writer(inner)
+        vals = {inner: w, size: size0,
+                carry: [BV(bf.sym(stream[i] if i < size0 else "stale%d" % i, 8)) for i in range(n)]}
+        return ce.StructV("Base64Encoder", {f: vals[f] for f in order}), w
+
+    def run(fn, selfv, args):
+        it.emits = []
+        it.steps = 0
         try:
-            finals = w.run_block(fn[1]["body"]["stmts"], [St()])
-        except Shape as ex:
-            ctx.anchor("ENC-BITS", path, "%s: construct outside the recognised encoder idioms: %s" % (path, ex))
+            r = it.run_item(fn[1], "Base64Encoder", [selfv] + args, fn[0])
+        except ce.Unsupported as ex:
+            return None, str(ex)
+        return (r, list(it.emits)), None
+
+    # ---- new(): the carry starts empty
+    nf = ctx.src.fn("new", impl_self=r"Base64Encoder.*")
+    if nf is not None and len([i for i in nf[1]["sig"]["inputs"]]) == 1:
+        res, err = run(nf, Writer(inner), [])
+        v = res[0].fields.get(size) if res is not None and isinstance(res[0], ce.StructV) else None
+        ctx.instance("CARRY", {"fn": "encoder::Base64Encoder::new", "initial_index": v if res is not None else err})
+        if res is not None and v != 0:
+            ctx.violation("CARRY", "encoder::Base64Encoder::new", "initial-index", "Base64Encoder::new starts with carry index %r, must be 0" % (v,), sites=["%s:%d" % (nf[0], nf[1]["line"])])
+        new_ok = res is not None and v == 0
+    else:
+        new_ok = False
+    ctx.extra["c14_new_ok"] = new_ok
+    pads_by_noct = {}
+    pending = []      # (fn, path, shape, cells, octs, line, quiet): judged once the alphabet table is known
+    told = set()
+
+    def once(rule, where, shape, msg, sites):
+        """one report per key: the longer write runs repeat the findings of the single steps"""
+        if (rule, where, shape) not in told:
+            told.add((rule, where, shape))
+            ctx.violation(rule, where, shape, msg, sites=sites)
+    # ---- finish: one run per carry state
+    path = "encoder::Base64Encoder::finish"
+    for noct in range(n + 1):
+        shape = "finish-%d" % noct
+        octs = ["oct%d" % i for i in range(noct)]
+        selfv, w = fresh(noct, octs)
+        res, err = run(fi, selfv, [])
+        if res is None and noct == n:
+            ctx.note("ENC-BITS: finish with a full carry (index %d; reachable only after write returned Err) is not evaluated: %s" % (n, err))
+            break
+        if res is None:
+            ctx.anchor("ENC-BITS", path, "%s (carry index %d): construct outside what the symbolic evaluation understands: %s" % (path, noct, err))
+            break
+        r, emits = res
+        if noct == 0:
+            ctx.instance("ENC-PAD", {"fn": path, "shape": shape, "emits": len(emits)})
+            if emits:
+                ctx.violation("ENC-PAD", path, shape + ":emit", "a quantum is emitted although no complete/partial group is pending", sites=["%s:%d" % (fi[0], emits[0][1])])
             continue
-        tables |= w.tables
-        seen = {}
-        for s in finals:
-            if which == "finish":
-                somes = [f for f in s.facts if f[0] == "some"]
-                if s.full:
-                    raise_shape = "finish binds the whole carry array"
-                    ctx.anchor("ENC-BITS", path + "/pattern", raise_shape)
-                    continue
-                noct = len(somes)
-                shape = "finish-%d" % noct
+        if len(emits) != 1:
+            ctx.violation("ENC-BITS", path, shape + ":emit-count", "%d quanta emitted for %d pending octets (must be exactly one)" % (len(emits), noct), sites=["%s:%d" % (fi[0], fi[1]["line"])])
+            continue
+        cells, line, sink = emits[0]
+        if sink is not w:
+            ctx.violation("ENC-BITS", path, shape + ":sink", "quantum written to %s, not to the inner writer" % (sink,), sites=["%s:%d" % (fi[0], line)])
+        pending.append((fi, path, shape, cells, octs, line, False))
+        pads_by_noct.setdefault(noct, set()).add(sum(1 for c in cells if c[0] == "lit" and c[1] == ref["padv"]))
+    # ---- write: symbolic bytes, concrete carry state and input length
+    path = "encoder::Base64Encoder::write"
+    ws = ctx.prog.method(r"(^|::)Base64Encoder\b", "write", r"Write")
+    mpath = ws[0].path if len(ws) == 1 else path
+    for size0, nin in WRITE_RUNS:
+        stream = ["oct%d" % i for i in range(size0 + nin)]
+        selfv, w = fresh(size0, stream)
+        buf = [BV(bf.sym(s, 8)) for s in stream[size0:]]
+        res, err = run(wr, selfv, [buf])
+        if res is None:
+            ctx.anchor("ENC-BITS", path, "%s (carry index %d, %d bytes): construct outside what the symbolic evaluation understands: %s" % (path, size0, nin, err))
+            break
+        r, emits = res
+        step = nin == 1
+        shape = ("write-full" if size0 == n - 1 else "write-partial") if step else "write-stream"
+        groups = [stream[i:i + n] for i in range(0, len(stream) - len(stream) % n, n)]
+        rest = stream[len(groups) * n:]
+        site = ["%s:%d" % (wr[0], wr[1]["line"])]
+        if step and not groups:
+            ctx.instance("ENC-PAD", {"fn": path, "shape": shape, "emits": len(emits)})
+        if len(emits) != len(groups):
+            if not groups:
+                once("ENC-PAD", path, shape + ":emit", "a quantum is emitted although no complete/partial group is pending", ["%s:%d" % (wr[0], emits[0][1])])
             else:
-                full_cond = [f for f in s.facts if f[0] == "cond" and f[1] == ("size", "==", n) and f[2] is True]
-                noct = n if (s.full and full_cond) else (None if s.full else 0)
-                if noct is None:
-                    ctx.violation("ENC-BITS", path, "carry-read-unguarded", "the carry array is read as a full quantum on a path not guarded by `%s == %d`" % (size, n), sites=[fn[0]])
-                    continue
-                shape = "write-full" if noct else "write-partial"
-            seen.setdefault(shape, 0)
-            seen[shape] += 1
-            if noct == 0:
-                ctx.instance("ENC-PAD", {"fn": path, "shape": shape, "emits": len(s.emits)})
-                if s.emits:
-                    ctx.violation("ENC-PAD", path, shape + ":emit", "a quantum is emitted although no complete/partial group is pending", sites=["%s:%d" % (fn[0], s.emits[0][1])])
-                continue
-            if len(s.emits) != 1:
-                ctx.violation("ENC-BITS", path, shape + ":emit-count", "%d quanta emitted for %d pending octets (must be exactly one)" % (len(s.emits), noct), sites=["%s:%d" % (fn[0], fn[1]["line"])])
-                continue
-            cells, line, recv = s.emits[0]
-            if recv != "self." + inner:
-                ctx.violation("ENC-BITS", path, shape + ":sink", "quantum written to %s, not to the inner writer" % recv, sites=["%s:%d" % (fn[0], line)])
-            check_emit(ctx, ref, (fn[0], path), shape, cells, noct, line, sorted(w.tables)[0] if len(w.tables) == 1 else None)
-            pads_by_noct.setdefault(noct, set()).add(sum(1 for c in cells if c[0] == "lit" and c[1] == ref["padv"]))
-        want = {"finish": {"finish-0", "finish-1", "finish-2", "finish-3"}, "write": {"write-full", "write-partial"}}[which]
-        for m in sorted(want - set(seen)):
-            ctx.violation("ENC-BITS", path, m + ":missing", "no path of %s handles the case %s" % (path, m), sites=["%s:%d" % (fn[0], fn[1]["line"])])
+                once("ENC-BITS", path, shape + ":emit-count", "%d quanta emitted for %d completed groups of %d octets (carry index %d, %d bytes written)" % (len(emits), len(groups), n, size0, nin), site)
+        else:
+            for g, (cells, line, sink) in zip(groups, emits):
+                if sink is not w:
+                    once("ENC-BITS", path, shape + ":sink", "quantum written to %s, not to the inner writer" % (sink,), ["%s:%d" % (wr[0], line)])
+                pending.append((wr, path, shape, cells, g, line, not step))
+        # new state and result
+        st_size = selfv.fields.get(size)
+        st_carry = selfv.fields.get(carry)
+        got_rest = [c.bits if isinstance(c, BV) else c for c in (st_carry[:len(rest)] if isinstance(st_carry, list) else [])]
+        ok_size = st_size == len(rest)
+        ok_carry = got_rest == [bf.sym(s, 8) for s in rest]
+        ok_ret = r == ("Ok", nin)
+        ctx.instance("CARRY", {"fn": mpath, "carry_index": size0, "bytes": nin, "emitted": len(emits), "new_index": st_size, "carry_ok": ok_carry, "result": str(r)})
+        if not ok_size:
+            once("CARRY", mpath, "index", "with carry index %d, after %d byte(s) the carry index is %r, must be %d (= (%d + %d) mod %d): bytes are dropped, emitted twice or stored out of bounds" % (
+                size0, nin, st_size, len(rest), size0, nin, n), site)
+        elif not ok_carry:
+            once("CARRY", mpath, "store", "with carry index %d, after %d byte(s) the pending bytes are not the last %d bytes written, in order (carry holds %s)" % (
+                size0, nin, len(rest), [bf.render(b) if isinstance(b, list) else b for b in got_rest]), site)
+        if not ok_ret:
+            once("CARRY", mpath, "ok-value", "write of %d byte(s) returns %s, not Ok(%d) = Ok(buf.len()): the caller would re-send or skip bytes" % (nin, r, nin), site)
     if len(tables) != 1:
         ctx.anchor("ENC-BITS", "alphabet-table", "encoder indexes %s; expected exactly one alphabet table" % sorted(tables))
         return None, pads_by_noct
-    return sorted(tables)[0], pads_by_noct
+    enc_table = sorted(tables)[0]
+    for fn, path, shape, cells, octs, line, quiet in pending:
+        if quiet and ctx.rules["ENC-BITS"]["violations"] + ctx.rules["ENC-PAD"]["violations"]:
+            continue        # the single steps are already reported
+        check_emit(ctx, ref, (fn[0], path), shape, cells, octs, line, enc_table, quiet)
+    return enc_table, pads_by_noct
 
 
 # =============================================================================================
-# (b) decoder: 4 -> 3 regrouping and size-from-padding, over the source tree
+# (b) decoder: 4 -> 3 regrouping and size-from-padding (same evaluator)
 # =============================================================================================
 def param_name(fn):
     ins = [i for i in fn["sig"]["inputs"] if i["name"] != "self"]
@@ -542,138 +1436,312 @@ def param_name(fn):
     return None
 
 
-def check_decode_bits(ctx, ref, fnname):
-    ctx.rule("DEC-BITS", "each of the 3 bytes returned by the 4->3 function has the RFC 4648 bit provenance over DECODE[chunk[k]] (24 bits)", floor=3)
-    f = ctx.src.fn(fnname, impl_self=r"Base64Decoder.*")
-    path = "decoder::Base64Decoder::" + fnname
+def check_decode_bits(ctx, ref, fnname, covered):
+    """covered: the stream evaluation (DEC-USE) established the bit provenance of every delivered byte through read(); then a missing /
+    differently shaped 4->3 function is not an anchor"""
+    desc = "each of the 3 bytes returned by the 4->3 function has the RFC 4648 bit provenance over DECODE[chunk[k]] (24 bits)"
+    f = ctx.src.fn(fnname, impl_self=r"Base64Decoder.*") if fnname else None
+    path = "decoder::Base64Decoder::" + (fnname or "<4to3>")
     if f is None or param_name(f[1]) is None:
-        ctx.anchor("DEC-BITS", path, "4->3 function with a single [u8;4] parameter not found")
+        ctx.rule("DEC-BITS", desc, floor=0 if covered else 3)
+        if covered:
+            ctx.note("DEC-BITS: no separate fn([u8;4]) -> [u8;3] in Base64Decoder; the bit provenance of every decoded byte is established through read() (DEC-USE)")
+        else:
+            ctx.anchor("DEC-BITS", "4to3-function", "no Base64Decoder fn([u8;4]) -> [u8;3]")
         return None
-    chunk = param_name(f[1])
-    env = {"%s[%d]" % (chunk, k): bf.sym("c%d" % k, 8) for k in range(4)}
+    ctx.rule("DEC-BITS", desc, floor=3)
+    it = SymInterp(ctx.src)
     tables = set()
-    stmts = f[1]["body"]["stmts"]
-    result = None
+
+    def hook(tab, idx, node):
+        ks = [k for k in range(4) if idx.bits[:8] == bf.sym("c%d" % k, 8) and not any(idx.bits[8:])]
+        if len(ks) != 1:
+            raise ce.Unsupported("table index `%s` is not exactly one chunk byte" % expr_text(node["i"]))
+        tables.add(tab.name)
+        return BV(bf.sym("sx%d" % ks[0], 8, valbits=6))     # the sextet of a valid character (DECODE-INVERSE: DECODE[ENCODE[i]] = i < 64)
+    it.table_hook = hook
     try:
-        for i, st in enumerate(stmts):
-            if st["k"] == "let":
-                init = st.get("init") or {}
-                if st["pat"].get("k") == "ident" and init.get("k") == "index" and init["e"].get("k") == "path" and init["e"]["p"] not in env and init["e"]["p"] != chunk:
-                    idx = bf.provenance(init["i"], env, 64)
-                    ks = [k for k in range(4) if idx == bf.zext(bf.sym("c%d" % k, 8), 64)]
-                    if len(ks) != 1:
-                        raise Shape("table index `%s` is not exactly one chunk byte" % expr_text(init["i"]))
-                    tables.add(init["e"]["p"])
-                    env[st["pat"]["name"]] = bf.sym("sx%d" % ks[0], 8, valbits=6)
-                else:
-                    bf.bind_let(st, env)
-            elif st["k"] == "expr" and i == len(stmts) - 1 and not st.get("semi") and st["e"].get("k") == "array":
-                result = [bf.provenance(x, env, 8) for x in st["e"]["elems"]]
-            else:
-                raise Shape("statement `%s` not understood" % st["k"])
-    except (Shape, bf.BitflowError, KeyError) as ex:
-        ctx.anchor("DEC-BITS", path, "%s: outside the recognised decoder idioms: %s" % (path, ex))
+        result = it.run_item(f[1], "Base64Decoder", [[BV(bf.sym("c%d" % k, 8)) for k in range(4)]], f[0])
+    except ce.Unsupported as ex:
+        ctx.anchor("DEC-BITS", path, "%s: outside what the symbolic evaluation understands: %s" % (path, ex))
         return None
     site = ["%s:%d" % (f[0], f[1]["line"])]
-    if result is None or len(result) != 3:
-        ctx.anchor("DEC-BITS", path + "/result", "the function does not end in a 3-element array expression")
+    result = _seq(result) if not isinstance(result, IterV) else None
+    if result is None or len(result) != 3 or not all(isinstance(x, BV) and len(x.bits) == 8 for x in result):
+        ctx.anchor("DEC-BITS", path + "/result", "the function does not return 3 bytes computed from the chunk")
         return None
     for m in range(3):
         exp = [("sx%d" % ref["oc"][(m, b)][0], ref["oc"][(m, b)][1]) for b in range(8)]
-        ctx.instance("DEC-BITS", {"fn": path, "byte": m, "bits": bf.render(result[m]), "rfc": bf.render(exp)})
-        if result[m] != exp:
+        got = result[m].bits
+        ctx.instance("DEC-BITS", {"fn": path, "byte": m, "bits": bf.render(got), "rfc": bf.render(exp)})
+        if got != exp:
             ctx.violation("DEC-BITS", path, "byte%d" % m,
-                          "decoded byte %d has bits [%s] (sxK = 6-bit value of character K); RFC 4648 §4 needs [%s]" % (m, bf.render(result[m]), bf.render(exp)), sites=site)
+                          "decoded byte %d has bits [%s] (sxK = 6-bit value of character K); RFC 4648 §4 needs [%s]" % (m, bf.render(got), bf.render(exp)), sites=site)
     if len(tables) != 1:
         ctx.anchor("DEC-BITS", "decode-table", "decoder indexes %s; expected exactly one table" % sorted(tables))
         return None
     return sorted(tables)[0]
 
 
-def eval_size_fn(fn, chunk, ispad, padv):
-    """evaluate the size-from-padding function for a chunk whose byte k is '=' iff ispad[k]"""
-    names = {}
-
-    def cond(c):
-        k = c.get("k")
-        if k == "bin" and c["op"] in ("&&", "||"):
-            a, b = cond(c["l"]), cond(c["r"])
-            return (a and b) if c["op"] == "&&" else (a or b)
-        if k == "un" and c["op"] == "!":
-            return not cond(c["e"])
-        if k == "bin" and c["op"] in ("==", "!="):
-            l, r = c["l"], c["r"]
-            if lit_int(l) is not None:
-                l, r = r, l
-            key = bf.key_of(l)
-            if lit_int(r) != padv or key not in names:
-                raise Shape("condition `%s` is not a comparison of a chunk byte with '='" % expr_text(c))
-            v = ispad[names[key]]
-            return v if c["op"] == "==" else not v
-        raise Shape("condition `%s`" % expr_text(c))
-
-    def val(e):
-        k = e.get("k")
-        if k == "lit":
-            return lit_int(e)
-        if k == "if":
-            if cond(e["cond"]):
-                return block(e["then"]["stmts"])
-            if e.get("else") is None:
-                raise Shape("if without else in value position")
-            return val(e["else"])
-        if k == "block":
-            return block(e["stmts"])
-        if k == "return" and e.get("e") is not None:
-            return val(e["e"])
-        raise Shape("value `%s`" % expr_text(e))
-
-    def block(stmts):
-        for i, st in enumerate(stmts):
-            if st["k"] == "let" and st["pat"].get("k") == "slice" and bf.key_of(st.get("init") or {}) == chunk:
-                for j, p in enumerate(st["pat"]["elems"]):
-                    if p.get("k") == "ident":
-                        names[p["name"]] = j
-                    elif p.get("k") != "wild":
-                        raise Shape("chunk pattern")
-            elif st["k"] == "expr" and i == len(stmts) - 1:
-                return val(st["e"])
-            elif st["k"] == "expr" and st["e"].get("k") == "if" and st["e"].get("else") is None:
-                if cond(st["e"]["cond"]):
-                    return block(st["e"]["then"]["stmts"])
-            else:
-                raise Shape("statement `%s`" % st["k"])
-        raise Shape("no value")
-
-    for k in range(4):
-        names["%s[%d]" % (chunk, k)] = k
-    return block(fn["body"]["stmts"])
-
-
-def check_padding(ctx, ref, pads_by_noct, fnname):
+def check_padding(ctx, ref, pads_by_noct, fnname, covered):
     ctx.rule("PAD-AGREE", "n leftover octets <-> 3-n '=' in finish <-> size-from-padding returns n (n = 1,2,3)", floor=3)
-    f = ctx.src.fn(fnname, impl_self=r"Base64Decoder.*")
-    path = "decoder::Base64Decoder::" + fnname
-    if f is None or param_name(f[1]) is None:
-        ctx.anchor("PAD-AGREE", path, "size-from-padding function with a single [u8;4] parameter not found")
-        return
-    chunk = param_name(f[1])
+    f = ctx.src.fn(fnname, impl_self=r"Base64Decoder.*") if fnname else None
+    path = "decoder::Base64Decoder::" + (fnname or "<size>")
+    it = SymInterp(ctx.src)
+    padv = ref["padv"]
+
+    def compare(op, a, b):
+        if isinstance(b, NonPad):
+            a, b = b, a
+        if isinstance(a, NonPad) and _is_int(b) and b == padv and op in ("==", "!="):
+            return op == "!="
+        raise ce.Unsupported("comparison `%s` of a chunk byte with something else than '='" % op)
+    it.compare_hook = compare
+    usable = f is not None and param_name(f[1]) is not None
+    if not usable:
+        if covered:
+            ctx.note("PAD-AGREE: no separate fn([u8;4]) -> usize in Base64Decoder; the number of bytes a padded quantum delivers is established through read() (DEC-USE)")
+        else:
+            ctx.anchor("PAD-AGREE", "size-function", "no Base64Decoder fn([u8;4]) -> usize")
     for case in ref["final_quantum"]["cases"]:
         n, p = case["octets"], case["pads"]
-        ispad = [k >= 4 - p for k in range(4)]
-        try:
-            got = eval_size_fn(f[1], chunk, ispad, ref["padv"])
-        except Shape as ex:
-            ctx.anchor("PAD-AGREE", path, "%s: outside the recognised idioms: %s" % (path, ex))
-            return
+        got = None
+        if usable:
+            chunk = [padv if k >= 4 - p else NonPad(k) for k in range(4)]
+            try:
+                got = it.run_item(f[1], "Base64Decoder", [chunk], f[0])
+            except ce.Unsupported as ex:
+                if covered:
+                    ctx.note("PAD-AGREE: %s is not evaluable (%s); the number of bytes a padded quantum delivers is established through read() (DEC-USE)" % (path, ex))
+                else:
+                    ctx.anchor("PAD-AGREE", path, "%s: outside what the symbolic evaluation understands: %s" % (path, ex))
+                usable = False
         enc = sorted(pads_by_noct.get(n, []))
-        ctx.instance("PAD-AGREE", {"octets": n, "rfc_pads": p, "finish_pads": enc, "decoded_size": got})
-        if got != n:
+        ctx.instance("PAD-AGREE", {"octets": n, "rfc_pads": p, "finish_pads": enc, "decoded_size": got if _is_int(got) else str(got)})
+        if usable and (got != n or not _is_int(got)):
             ctx.violation("PAD-AGREE", path, "pads%d" % p,
                           "a final quantum with %d '=' carries %d octets (RFC 4648 §4), %s returns %s" % (p, n, fnname, got), sites=["%s:%d" % (f[0], f[1]["line"])])
         if enc and enc != [p]:
             ctx.violation("PAD-AGREE", "encoder::Base64Encoder::finish", "pads%d" % p,
                           "finish emits %s '=' for %d leftover octets, RFC 4648 needs %d" % (enc, n, p))
+
+
+# =============================================================================================
+# (c-shape, d, e) decoder: symbolic evaluation of read() over a scripted inner reader
+# =============================================================================================
+class Reader:
+    """scripted inner reader: hands out the stream in pieces of the scripted sizes (never more than requested, as the Read
+    contract demands), then Ok(0) for ever"""
+
+    def __init__(self, stream, script):
+        self.stream, self.script = list(stream), list(script)
+        self.pos = self.k = 0
+
+    def read(self, dst):
+        want = self.script[self.k % len(self.script)]
+        self.k += 1
+        n = min(want, len(dst), len(self.stream) - self.pos)
+        for i in range(n):
+            dst[i] = self.stream[self.pos + i]
+        self.pos += n
+        return ("Ok", n)
+
+    def __repr__(self):
+        return "<scripted reader>"
+
+
+class Opaque:
+    def __init__(self, what):
+        self.what = what
+
+    def __repr__(self):
+        return "<%s>" % self.what
+
+
+def make_stream(nq, tail="", extra=0):
+    """nq quanta of valid characters (symbols c0, c1, ..), the last one ending in `tail` ('=' characters), then `extra` more valid
+    characters (a partial quantum).  Returns (stream values, names) with name None for '='"""
+    names = ["c%d" % j for j in range(4 * nq)]
+    for j in range(len(tail)):
+        names[4 * nq - 1 - j] = None
+    names += ["c%d" % (4 * nq + j) for j in range(extra)]
+    return names
+
+
+def expected_stream(ref, names):
+    """bit provenance of the bytes an RFC 4648 decoder delivers for the complete quanta of the stream (sxN = sextet of character N)"""
+    out = []
+    for q in range(len(names) // 4):
+        qn = names[4 * q:4 * q + 4]
+        npad = sum(1 for x in qn if x is None)
+        for m in range(3 - npad):
+            out.append([("sx" + qn[ref["oc"][(m, b)][0]][1:], ref["oc"][(m, b)][1]) for b in range(8)])
+    return out
+
+
+# run families: (rule, [(stream spec, reader script, destination size)])
+def stream_runs():
+    big = 400
+    comps = [[1], [2], [3], [1, 3], [3, 1], [2, 2], [1, 2, 1], [2, 1, 1], [1, 1, 2], [5, 1], [3, 4]]
+    return [
+        # baseline: whole quanta per inner read, one large destination -> decode + store (fill)
+        ("DEC-USE", [((nq, tail, 0), [4], big) for nq, tail in ((1, ""), (1, "=="), (1, "="), (2, ""), (3, "="), (21, ""), (22, ""), (22, "=="), (43, "="), (64, ""))]
+         + [((0, "", 0), [4], big)]),
+        # every destination size: min(available, room), both offsets advance, nothing lost between calls
+        # (a negative size -n: calls with an empty destination interleaved - they must return Ok(0) and lose nothing - with calls of size n)
+        ("READ-MIN", [((22, "=", 0), [4], n) for n in (1, 2, 3, 4, 5, 7, 31, 62, 63, 64, 65, 66, -5)] + [((43, "", 0), [4], n) for n in (1, 3, 64, 100)]),
+        # short reads of the inner reader: every way of cutting a quantum
+        ("SHORT-READ", [((3, "=", 0), c, big) for c in comps] + [((22, "", 0), c, 5) for c in ([1], [3], [2, 1])]),
+        # a trailing partial quantum must end in Err, a clean end in Ok(0)
+        ("LEN-ERROR", [((nq, "", r), c, n) for nq in (0, 1, 22) for r in (1, 2, 3) for c, n in (([4], big), ([1], big), ([3], 2))]),
+    ]
+
+
+def check_stream(ctx, ref):
+    """-> {rule: 'pass' | 'fail' | 'unknown', 'tables': names of the decode tables met}"""
+    fams = stream_runs()
+    desc = {
+        "DEC-USE": "fill: every complete quantum is decoded and stored in order (1/2/3 bytes by its padding), whole stream delivered by read() into a large destination",
+        "READ-MIN": "read: for every destination size the decoded bytes are delivered completely and in order (copies min(available, room), both offsets advance by it)",
+        "SHORT-READ": "a short count of the inner Read::read is not an error: every cutting of the quanta into inner reads decodes the same bytes",
+        "LEN-ERROR": "a trailing partial quantum (1..3 characters) ends in Err from read(), whatever the chunking; a clean end of input is Ok(0), never Err",
+    }
+    for rule, runs in fams:
+        ctx.rule(rule, desc[rule] + " [symbolic evaluation over a scripted inner reader; MIR shape rules as diagnostics]", floor=len(runs))
+    verdict = {rule: "unknown" for rule, _ in fams}
+    verdict["tables"] = set()        # decode tables indexed by an input character
+    newf = ctx.src.fn("new", impl_self=r"Base64Decoder.*")
+    rdf = ctx.src.fn("read", impl_self=r"Base64Decoder.*", impl_trait=r".*Read")
+    rds = ctx.prog.method(r"(^|::)Base64Decoder\b", "read", r"Read")
+    where = rds[0].path if len(rds) == 1 else "decoder::Base64Decoder::read"
+    if newf is None or rdf is None:
+        for rule, _ in fams:
+            ctx.anchor(rule, "Base64Decoder::new/read", "Base64Decoder::new / <Base64Decoder as Read>::read not found in the source")
+        return verdict
+    it = SymInterp(ctx.src)
+    padv = ref["padv"]
+
+    def stream_sym(v):
+        """name of the stream character a byte-wide symbolic value is (None: something else)"""
+        b = v.bits
+        if isinstance(b[0], tuple) and b[0][0].startswith("c") and b[:8] == bf.sym(b[0][0], 8) and not any(b[8:]):
+            return b[0][0]
+        return None
+
+    def hook(tab, idx, node):
+        s = stream_sym(idx)
+        if s is None:
+            raise ce.Unsupported("table index `%s` is not exactly one input character" % expr_text(node["i"]))
+        verdict["tables"].add(tab.name)
+        return BV(bf.sym("sx" + s[1:], 8, valbits=6))     # the sextet of a valid character (DECODE-INVERSE)
+
+    def compare(op, a, b):
+        if isinstance(b, BV):
+            a, b = b, a
+        if isinstance(a, BV) and stream_sym(a) is not None and _is_int(b) and b == padv and op in ("==", "!="):
+            return op == "!="           # a valid alphabet character is not '='
+        raise ce.Unsupported("comparison `%s` depends on a data byte" % op)
+    it.table_hook, it.compare_hook = hook, compare
+
+    def drive(names, script, out_len):
+        stream = [padv if x is None else BV(bf.sym(x, 8)) for x in names]
+        reader = Reader(stream, script)
+        it.steps = 0
+        dec = it.run_item(newf[1], "Base64Decoder", [reader], newf[0])
+        if not isinstance(dec, ce.StructV):
+            raise ce.Unsupported("Base64Decoder::new does not evaluate to a struct")
+        got, end = [], None
+        empty_calls = out_len < 0           # an empty destination before the first and after every other call
+        out_len = abs(out_len)
+        for k in range(len(names) + 8):
+            if empty_calls and k % 2 == 0:
+                r = it.run_item(rdf[1], "Base64Decoder", [dec, []], rdf[0])
+                if r != ("Ok", 0):
+                    raise ce.Unsupported("read into an empty destination returns %r, not Ok(0)" % (r,))
+            out = [Opaque("stale destination byte")] * out_len
+            r = it.run_item(rdf[1], "Base64Decoder", [dec, out], rdf[0])
+            if not (isinstance(r, tuple) and len(r) == 2 and r[0] in ("Ok", "Err")):
+                raise ce.Unsupported("read returns %r" % (r,))
+            if r[0] == "Err":
+                end = "err"
+                break
+            if not _is_int(r[1]) or not (0 <= r[1] <= out_len):
+                raise ce.Unsupported("read returns Ok(%r) for a destination of %d bytes" % (r[1], out_len))
+            if r[1] == 0:
+                end = "eof"
+                break
+            got += out[:r[1]]
+        return [x.bits if isinstance(x, BV) else x for x in got], end
+
+    base_ok = True
+    for rule, runs in fams:
+        state = "pass"
+        for (nq, tail, extra), script, out_len in runs:
+            names = make_stream(nq, tail, extra)
+            exp = expected_stream(ref, names)
+            what = "%d quanta%s%s, inner reads of %s bytes, destination of %s bytes" % (nq, " ending in '%s'" % tail if tail else "", " + %d characters" % extra if extra else "", script,
+                                                                                          out_len if out_len >= 0 else "0 and %d alternating" % -out_len)
+            try:
+                got, end = drive(names, script, out_len)
+            except ce.Unsupported as ex:
+                ctx.anchor(rule, "read/evaluation", "%s (%s): outside what the symbolic evaluation understands: %s" % (where, what, ex))
+                state = "unknown"
+                break
+            data_ok = got == exp if not extra else got == exp[:len(got)]
+            end_ok = end == ("err" if extra else "eof")
+            ctx.instance(rule, {"fn": where, "input": what, "bytes": len(got), "expected": len(exp), "end": end, "ok": data_ok and end_ok})
+            if not data_ok:
+                state = "fail"
+                if rule == "DEC-USE" or base_ok:        # otherwise already reported with the baseline
+                    first = next((i for i in range(min(len(got), len(exp))) if got[i] != exp[i]), min(len(got), len(exp)))
+                    gb = bf.render(got[first]) if first < len(got) and isinstance(got[first], list) else (repr(got[first]) if first < len(got) else "nothing")
+                    eb = bf.render(exp[first]) if first < len(exp) else "nothing"
+                    shape = {"DEC-USE": "stream", "READ-MIN": "small-destination", "SHORT-READ": "chunked-reads", "LEN-ERROR": "before-partial"}[rule]
+                    ctx.violation(rule, where, shape, "%s: %d bytes delivered, %d expected; byte %d is [%s], RFC 4648 decoding gives [%s] (sxN = sextet of input character N)" % (
+                        what, len(got), len(exp), first, gb, eb), sites=[rdf[0]])
+            if not end_ok:
+                verdict["LEN-ERROR"] = "fail"
+                if rule == "LEN-ERROR":
+                    state = "fail"
+                if extra:
+                    ctx.violation("LEN-ERROR", where, "partial-accepted", "%s: the stream ends inside a quantum but read() reports %s instead of an error: truncated text is accepted silently" % (
+                        what, "a clean end (Ok(0))" if end == "eof" else "no end"), sites=[rdf[0]])
+                else:
+                    ctx.violation("LEN-ERROR", where, "clean-end-is-error" if end == "err" else "no-end", "%s: a well-formed stream ends in %s instead of Ok(0)" % (what, end), sites=[rdf[0]])
+        if rule == "DEC-USE" and state != "pass":
+            base_ok = False
+        if verdict[rule] != "fail":
+            verdict[rule] = state
+    return verdict
+
+
+class Diag:
+    """Receives the findings of the MIR shape rules.  They are reported for a clause only when the symbolic stream evaluation did not
+    establish it (then they say where the code deviates); otherwise a shape that is not recognised is an informational note."""
+
+    def __init__(self, ctx):
+        self.ctx = ctx
+        self.found = []
+
+    def __getattr__(self, k):
+        return getattr(self.ctx, k)
+
+    def rule(self, name, desc, floor=0):
+        if name not in self.ctx.rules:
+            self.ctx.rule(name, desc, floor=0)
+
+    def violation(self, rule, where, shape, msg, sites=(), detail=None):
+        self.found.append((rule, where, shape, msg, list(sites)))
+
+    def anchor(self, rule, what, msg=None):
+        self.found.append((rule, "ANCHOR", what, msg or ("anchor not found or not understood: " + what), []))
+
+    def flush(self, verdict):
+        for rule, where, shape, msg, sites in self.found:
+            if verdict.get(rule) == "pass":
+                self.ctx.note("%s: MIR shape rule undecided on this code (%s/%s: %s); the clause is established by the symbolic stream evaluation" % (rule, where, shape, msg[:160]))
+            else:
+                self.ctx.violation(rule, where, shape, msg, sites=sites)
 
 
 # =============================================================================================
@@ -1082,93 +2150,16 @@ def check_reads(ctx, ref, dec4, dsize):
 # (c) streaming-state shape on MIR: encoder carry index, decoder copy = min(available, room)
 # =============================================================================================
 def check_carry(ctx, ref, fields):
+    """MIR side of CARRY (the state machine itself is decided by the symbolic runs of check_encoder): every Base64Encoder literal starts
+    with carry index 0, and the value returned by write is buf.len() for every length (the runs cover lengths up to 65 only)."""
     prog = ctx.prog
-    ctx.rule("CARRY", "write: byte stored at carry[index], index += 1, reset to 0 exactly on the `index == 3` edge after the quantum is emitted; new(): index 0; Ok(buf.len())", floor=7)
     ws = prog.method(r"(^|::)Base64Encoder\b", "write", r"Write")
     if len(ws) != 1 or fields is None:
         ctx.anchor("CARRY", "Base64Encoder::write")
         return
-    carry, size, inner, n = fields
-    b = ws[0]
-    cfg = b.cfg()
-    SZ = "(*_1).%s" % size
-    szw = writes_to_field(b, r"^\(\*_1\)\.%s$" % re.escape(size))
-    sz_blocks = {i for (i, si, rp, s) in szw}
-    # 1. the store
-    stores = [(i, si, s) for i, si, s in b.assigns() if re.fullmatch(r"\(\*_1\)\.%s\[_\d+\]" % re.escape(carry), resolve_place(b, s["place"]))]
-    if len(stores) != 1:
-        ctx.violation("CARRY", b.path, "store-count", "expected exactly one store into the carry buffer per input byte, found %d" % len(stores), sites=[b.loc])
-        return
-    st_bb, st_si, st = stores[0]
-    il = st["place"]["p"][-1]["l"]
-    it = term(b, {"k": "copy", "place": {"l": il, "p": []}})
-    ds = b.defs_of(il)
-    ctx.instance("CARRY", {"fn": b.path, "store_index": it, "line": st["line"]})
-    between = cfg.reachable_from(ds[0][0], removed={st_bb}) & sz_blocks if len(ds) == 1 else {-1}
-    if it != ("place", SZ) or between:
-        ctx.violation("CARRY", b.path, "store-index", "the input byte is not stored at carry[%s] (index term %s%s)" % (size, it, ", index modified before the store" if between else ""), sites=["%s:%d" % (b.file, st["line"])])
-    vo = origins(b, st["rv"]["a"]) if st["rv"]["k"] == "use" else set()
-    nexts = [b.blocks[o[1]]["term"] for o in vo if o[0] == "call" and re.search(r"Iterator>::next$|Iterator::next$", o[2])]
-    src_ok = bool(nexts) and len(nexts) == len(vo)
-    for t in nexts:
-        og = origins(b, t["args"][0], through=[r"Iterator::(copied|cloned)$", r"IntoIterator>::into_iter$", r"slice::<impl \[T\]>::iter$"])
-        if og != {("place", "(*_2)")}:
-            src_ok = False
-    ctx.instance("CARRY", {"fn": b.path, "stored_value": sorted(map(str, vo)), "iterates_buf": src_ok})
-    if not src_ok:
-        ctx.violation("CARRY", b.path, "store-value", "the stored byte is not the next element of an in-order iteration of the `buf` argument", sites=["%s:%d" % (b.file, st["line"])])
-    # 2. writes of the index
-    incs, resets, other = [], [], []
-    for (i, si, rp, s) in szw:
-        rv = s.get("rv")
-        if rv is None:
-            other.append((i, s))
-        elif rv["k"] == "use" and op_const_int(rv["a"]) == 0:
-            resets.append((i, si, s))
-        elif rv["k"] == "use" and term(b, rv["a"]) == add_of(("place", SZ), ("c", 1)):
-            incs.append((i, si, s))
-        else:
-            other.append((i, s))
-    ctx.instance("CARRY", {"fn": b.path, "index_increments": len(incs), "index_resets": len(resets), "other_index_writes": len(other)})
-    if len(incs) != 1 or other or not cfg.dominates(st_bb, incs[0][0] if incs else 0):
-        ctx.violation("CARRY", b.path, "increment", "the carry index is not advanced by exactly 1 once after each stored byte (increments %d, other writes %d)" % (len(incs), len(other)), sites=[b.loc])
-        return
-    inc_bb, inc_si, _ = incs[0]
-    # 3. test == n after the increment, reset on that edge only and on every continuing path
-    tests = []
-    for i, si, s in b.assigns():
-        rv = s["rv"]
-        if rv["k"] == "bin" and rv["op"] == "Eq":
-            ta, tb = term(b, rv["a"]), term(b, rv["b"])
-            if {ta, tb} == {("place", SZ), ("c", n)}:
-                t = b.blocks[i]["term"]
-                if t["k"] == "switch" and op_local(t["d"]) == s["place"]["l"]:
-                    true_t = t["targets"][t["vals"].index("1")] if "1" in t["vals"] else t["otherwise"]
-                    tests.append((i, si, true_t, s["line"]))
-    good = [x for x in tests if (x[0] == inc_bb and x[1] > inc_si) or (x[0] != inc_bb and cfg.dominates(inc_bb, x[0]) and not (cfg.reachable_from(inc_bb, removed={x[0]}) & (sz_blocks - {inc_bb})))]
-    ctx.instance("CARRY", {"fn": b.path, "full_test_blocks": [x[0] for x in good]})
-    if len(good) != 1:
-        ctx.violation("CARRY", b.path, "full-test", "no unique test `%s == %d` right after the increment" % (size, n), sites=[b.loc])
-        return
-    eq_bb, _, T, eq_line = good[0]
-    heads = {h for h, body in cfg.loops().items() if st_bb in body}
-    oks = ok_return_blocks(b)
-    emits = [bb for bb, t in b.calls() if call_matches(t, r"^std::io::Write::write_all$|Write>::write_all$") and arg_place(b, t, 0) == "(*_1).%s" % inner]
-    ctx.instance("CARRY", {"fn": b.path, "reset_blocks": [r[0] for r in resets], "emit_blocks": emits})
-    if len(resets) != 1:
-        ctx.violation("CARRY", b.path, "reset-missing" if not resets else "reset-count",
-                      "the carry index is reset to 0 at %d places; it must be reset exactly where it reaches %d (otherwise the next byte is stored out of bounds / the group is emitted again)" % (len(resets), n),
-                      sites=["%s:%d" % (b.file, eq_line)])
-    else:
-        r_bb = resets[0][0]
-        if not cfg.edge_dominates(eq_bb, T, r_bb):
-            ctx.violation("CARRY", b.path, "reset-unguarded", "the carry index is reset on a path where it has not reached %d: pending bytes are dropped" % n, sites=["%s:%d" % (b.file, resets[0][2]["line"])])
-        ok, wit = cfg.must_pass({r_bb}, exits=heads | oks, start=T)
-        if not ok:
-            ctx.violation("CARRY", b.path, "reset-skipped", "after the index reached %d a path continues without resetting it (blocks %s)" % (n, wit), sites=["%s:%d" % (b.file, eq_line)])
-        if len(emits) != 1 or not cfg.edge_dominates(eq_bb, T, emits[0]) or not cfg.must_pass({emits[0]}, exits={r_bb}, start=T)[0]:
-            ctx.violation("CARRY", b.path, "emit", "the quantum is not written to the inner writer exactly once between `index == %d` and the reset" % n, sites=[b.loc])
-    # 4. constructor literals
+    carry, size, inner, n = fields[:4]
+    b = prog.inlined(ws[0].path) or ws[0]
+    # constructor literals
     lits = []
     for bd in prog.bodies:
         for i, si, s in bd.assigns():
@@ -1177,19 +2168,34 @@ def check_carry(ctx, ref, fields):
                 lits.append((bd, s))
     for bd, s in lits:
         rv = s["rv"]
-        v = op_const_int(rv["fields"][rv["fnames"].index(size)]) if size in rv.get("fnames", []) else None
+        o = rv["fields"][rv["fnames"].index(size)] if size in rv.get("fnames", []) else None
+        v = None
+        if o is not None:
+            v = op_const_int(o)
+            if v is None:
+                tv = term(bd, o)
+                v = tv[1] if tv[0] == "c" else None
         ctx.instance("CARRY", {"literal_in": bd.path, "initial_index": v})
+        if v is None and bd.name == "new" and ctx.extra.get("c14_new_ok"):
+            continue            # not a constant operand, but new() evaluates to index 0 (check_encoder)
         if v != 0:
             ctx.violation("CARRY", bd.path, "initial-index", "Base64Encoder constructed with carry index %s, must be 0" % v, sites=["%s:%d" % (bd.file, s["line"])])
     if not lits:
         ctx.anchor("CARRY", "Base64Encoder-literal")
-    # 5. all of buf is consumed
+    # all of buf is consumed
+    oks = ok_return_blocks(b)
     rets = [(i, s) for i, si, s in b.assigns() if i in oks and s["place"]["l"] == 0 and s["rv"]["k"] == "agg"]
     for i, s in rets:
         tv = term(b, s["rv"]["fields"][0])
         ctx.instance("CARRY", {"fn": b.path, "ok_value": tv})
-        if tv != ("len", "(*_2)"):
-            ctx.violation("CARRY", b.path, "ok-value", "write returns %s, not buf.len(): the caller would re-send or skip bytes" % (tv,), sites=["%s:%d" % (b.file, s["line"])])
+        if tv == ("len", "(*_2)"):
+            continue
+        if tv[0] == "var":
+            ctx.note("CARRY: %s returns %s (a computed count): equal to buf.len() for the evaluated lengths 0..65, undecided beyond" % (b.path, tv))
+            continue
+        ctx.violation("CARRY", b.path, "ok-value", "write returns %s, not buf.len(): the caller would re-send or skip bytes" % (tv,), sites=["%s:%d" % (b.file, s["line"])])
+    if not rets:
+        ctx.anchor("CARRY", "write/ok-value", "no Ok(..) value found in Base64Encoder::write")
 
 
 def range_def(body, call, argi):
@@ -1198,6 +2204,47 @@ def range_def(body, call, argi):
         return None
     nm = a["adt"].split("::")[-1]
     return nm, [term(body, f) for f in a["fields"]]
+
+
+def zero_len_edges(body, slice_place):
+    """CFG edges (bb, target) on which `<slice_place>.len() == 0` is known: outcomes of comparisons of the length with 0 / 1,
+    of `is_empty()`, and the `0` arm of a match on the length"""
+    L = ("len", slice_place)
+    # (op, length on the left?, constant) -> the switch value ("1" true / "0" false) on which len == 0 holds
+    zero_when = {("Eq", True, 0): "1", ("Eq", False, 0): "1", ("Ne", True, 0): "0", ("Ne", False, 0): "0",
+                 ("Gt", True, 0): "0", ("Lt", False, 0): "0", ("Le", True, 0): "1", ("Ge", False, 0): "1",
+                 ("Lt", True, 1): "1", ("Gt", False, 1): "1", ("Ge", True, 1): "0", ("Le", False, 1): "0"}
+    out = set()
+
+    def edge(bb, t, v):
+        if v in t["vals"]:
+            out.add((bb, t["targets"][t["vals"].index(v)]))
+        elif len(t["vals"]) == 1 and v in ("0", "1"):
+            out.add((bb, t["otherwise"]))
+    for bb, t in body.terms():
+        if t["k"] != "switch":
+            continue
+        dl = op_local(t["d"])
+        if dl is None:
+            continue
+        if term(body, t["d"]) == L:
+            edge(bb, t, "0") if "0" in t["vals"] else None
+            continue
+        ds = body.defs_of(dl)
+        if len(ds) != 1:
+            continue
+        _, si, rv = ds[0]
+        if si == "term":
+            if call_matches(rv, r"slice::<impl \[T\]>::is_empty$") and arg_place(body, rv, 0) == slice_place:
+                edge(bb, t, "1")
+        elif rv["k"] == "bin" and rv["op"] in CMP:
+            ta, tb = term(body, rv["a"]), term(body, rv["b"])
+            for left, x, y in ((True, ta, tb), (False, tb, ta)):
+                if x == L and y[0] == "c" and (rv["op"], left, y[1]) in zero_when:
+                    edge(bb, t, zero_when[(rv["op"], left, y[1])])
+        elif rv["k"] == "un" and rv["op"] == "Not":
+            pass
+    return out
 
 
 def check_read_min(ctx):
@@ -1248,8 +2295,23 @@ def check_read_min(ctx):
         ctx.instance("READ-MIN", {"fn": b.path, "out_offset_defs": defs})
         if sorted(defs, key=repr) != sorted([("c", 0), add_of(off, size_t)], key=repr):
             ctx.violation("READ-MIN", b.path, "out-offset", "out_offset is not (0; += size): %s" % (defs,), sites=site)
-        rets = [term(b, s["rv"]["fields"][0]) for i, si, s in b.assigns() if i in ok_return_blocks(b) and s["place"]["l"] == 0 and s["rv"]["k"] == "agg"]
-        if rets != [off]:
+        # every Ok value is the running count; or 0 / out.len() on an exit taken before anything is copied, on an edge
+        # where out.len() == 0 is known (an exact fast path for an empty destination: the loop would not have run)
+        cfg = b.cfg()
+        zedges = zero_len_edges(b, "(*_2)")
+        after_copy = cfg.reachable_from(bb)
+        rets, bad = [], []
+        for i, si, s in b.assigns():
+            if i in ok_return_blocks(b) and s["place"]["l"] == 0 and s["rv"]["k"] == "agg":
+                tv = term(b, s["rv"]["fields"][0])
+                rets.append(tv)
+                if tv == off:
+                    continue
+                if tv in (("c", 0), ("len", "(*_2)")) and i not in after_copy and any(cfg.edge_dominates(x, t, i) for x, t in zedges):
+                    continue
+                bad.append(tv)
+        ctx.instance("READ-MIN", {"fn": b.path, "ok_values": rets})
+        if bad or off not in rets:
             ctx.violation("READ-MIN", b.path, "ok-value", "read returns %s, not the number of bytes copied" % (rets,), sites=[b.loc])
     # buffer(): &self.buffer[self.buffer_offset..self.buffer_size]
     ic = [t for _, t in bufb.calls() if call_matches(t, r"Index<I>.*::index$")]
@@ -1328,17 +2390,21 @@ def find_decoder_fns(ctx):
 
 CLAIM = {
     "text": "Static necessary conditions of the streaming base64 codec, decided from the current source facts: the encoder alphabet equals "
-            "RFC 4648 Table 1 and the decode table inverts it ('=' -> 0) for all 64 rows; every character emitted by Base64Encoder::write and by "
-            "the 1/2/3-octet shapes of finish, and every byte produced by the decoder's 4->3 function, has exactly the RFC 4648 bit provenance "
-            "(24 bits per quantum, zero fill, '=' padding whose count agrees with the decoder's size-from-padding function); on MIR the carry "
-            "index is stored-at/advanced/reset exactly at 3 after the quantum is written, read copies min(available, room), fill stores the "
-            "decoded prefix at the buffered size, the inner Read::read obeys the short-read rule, and the not-a-multiple-of-four error exists, "
-            "is guarded by 0 < count < 4, cannot be avoided by a partial quantum and is propagated; two inductive struct invariants (encoder carry "
+            "RFC 4648 Table 1 and the decode table inverts it ('=' -> 0) for all 64 rows; by symbolic evaluation of the source (concrete control "
+            "state, symbolic data bytes with exact bit provenance) every character emitted by Base64Encoder::write and by finish in every carry "
+            "state has exactly the RFC 4648 regrouping (24 bits per quantum, zero fill, '=' padding whose count agrees with the decoder's "
+            "size-from-padding function), write in every carry state appends the bytes in order, emits every completed group exactly once, "
+            "leaves index (s+n) mod 3 and returns Ok(n) (all byte values; n up to 65), the decoder's 4->3 function has the inverse provenance, and "
+            "read() over a scripted inner reader delivers for every enumerated stream (up to 64 quanta, with and without padding), every cutting "
+            "of the quanta into inner reads and every enumerated destination size exactly the RFC 4648 bytes, in order, ends a trailing partial "
+            "quantum in Err and a clean end in Ok(0); two inductive struct invariants (encoder carry "
             "index in 0..=2; decoder 0 <= buffer_offset <= buffer_size <= 64) are proven by abstract interpretation and under them every "
             "overflow / bounds / range / copy_from_slice-length obligation of the codec is discharged (no panic for any input and any chunking, "
-            "assuming inner readers obey the Read contract n <= buf.len()). The equality of decoded and encoded bytes beyond these clauses is not decided.",
-    "technique": "exhaustive const-table comparison with an RFC 4648 reference, per-bit provenance (bitflow) over a symbolic walk of the syn tree, "
-                 "MIR CFG rules (dominators, natural loops, value origins, edge dominance)",
+            "assuming inner readers obey the Read contract n <= buf.len()). The enumerations of lengths/sizes/chunkings are finite; equality of "
+            "decoded and encoded bytes beyond them, invalid characters and behaviour after an Err are not decided.",
+    "technique": "exhaustive const-table comparison with an RFC 4648 reference; symbolic evaluation of the syn tree (sa/consteval subclass) with "
+                 "per-bit provenance (bitflow) over enumerated control states; MIR CFG rules (dominators, natural loops, value origins, edge "
+                 "dominance) as diagnostics; abstract interpretation for the numeric obligations",
     "design_ref": "DESIGN.md §5 C14",
 }
 
@@ -1346,29 +2412,43 @@ CLAIM = {
 def run(ctx):
     ctx.explanation = (
         "Decides, from the current source facts: (a) the encoder alphabet is RFC 4648 Table 1 (64 rows), DECODE[ENCODE[i]] = i for all i, "
-        "DECODE['='] = 0 (exhaustive over the const initialisers); (b) the index of every character emitted by Base64Encoder::write and by the "
-        "1/2/3-octet shapes of finish has exactly the RFC 4648 bit provenance (zero filled), pads are '=' and their number agrees with the "
-        "decoder's size-from-padding function; the decoder's 4->3 function has the inverse provenance (24 bits); (c-shape) on MIR: bytes are "
-        "stored at carry[index], index += 1, reset to 0 exactly on the index == 3 edge after the quantum is written, write returns buf.len(); "
-        "read copies min(available, room) and advances both offsets by it; fill stores out[..n] at buffer[size..size+n]; (d) the short-read "
-        "rule for every inner Read::read; (e) an explicit length error exists, is guarded by count != 0 and count < 4, is unavoidable for a "
-        "partial quantum, and is propagated by read(). NOT decided here: numeric panic-freedom/bounds (clauses c/f: see obligations()), "
-        "behaviour of the inner reader/writer, invalid characters (mapped to 0 by the table; outside the property).")
-    ctx.assume("MIR of the dev profile is the semantics of the code; std iterator/slice/min semantics are trusted; unwind paths are out of scope")
+        "DECODE['='] = 0 (exhaustive over the const initialisers); (b) by symbolic evaluation of write / finish in every carry state: the index of "
+        "every emitted character has exactly the RFC 4648 bit provenance (zero filled), pads are '=' and their number agrees with the "
+        "decoder's size-from-padding function; the decoder's 4->3 function has the inverse provenance (24 bits); (c-shape) write appends "
+        "bytes to the carry in order, emits each completed group once, index = (s+n) mod 3, returns buf.len(); read() delivers the decoded "
+        "bytes completely and in order for every enumerated destination size (min(available, room) copies, offsets advance); (d) every cutting "
+        "of the input into short inner reads decodes the same bytes; (e) a trailing partial quantum ends in Err from read(), a clean end in "
+        "Ok(0). MIR shape rules add diagnostics for clauses that fail. NOT decided here: numeric panic-freedom/bounds (clauses c/f: see "
+        "obligations()), behaviour of the inner reader/writer, invalid characters (mapped to 0 by the table; outside the property), "
+        "behaviour after an Err, input lengths / destination sizes beyond the enumerated ones.")
+    ctx.assume("the syn tree evaluated by sa/consteval (+ the std models of SymInterp: slices, iterators, Option/Result, min/max) and the MIR of the "
+               "dev profile are the semantics of the code; unwind paths are out of scope")
+    ctx.assume("valid input characters are alphabet characters (their table value is a sextet < 64, they differ from '='); the inner reader obeys the "
+               "Read contract (0 < n <= buf.len() until the end, then 0)")
     ctx.trust("sa/refs/rfc4648.json", "alphabet and 3<->4 regrouping written from RFC 4648 §4")
     ctx.trust("sa/bitflow.py", "exact per-bit provenance for shifts/masks/ors/casts; fails closed on other operators")
+    ctx.trust("sa/consteval.py", "source-level evaluator: control flow, calls, patterns of the evaluated subset; Unsupported on anything else")
     ref = load_ref(ctx)
     enc_name, pads = check_encoder(ctx, ref)
-    dec4, dsize = find_decoder_fns(ctx)
-    dec_name = check_decode_bits(ctx, ref, dec4) if dec4 else ctx.anchor("DEC-BITS", "4to3-function", "no Base64Decoder fn([u8;4]) -> [u8;3]") and None
-    if dsize:
-        check_padding(ctx, ref, pads, dsize)
-    else:
-        ctx.anchor("PAD-AGREE", "size-function", "no Base64Decoder fn([u8;4]) -> usize")
-    check_tables(ctx, ref, enc_name, dec_name)
-    ctx.exhaustive = {"ALPHABET": "all 64 rows", "DECODE-INVERSE": "all 64 alphabet characters + pad", "ENC-BITS/DEC-BITS": "all 24 bits of every shape"}
     check_carry(ctx, ref, encoder_fields(ctx))
-    fld = check_read_min(ctx)
-    check_dec_use(ctx, dec4, dsize, fld)
-    check_reads(ctx, ref, dec4, dsize)
+    verdict = check_stream(ctx, ref)
+    covered = verdict["DEC-USE"] == "pass"
+    dec4, dsize = find_decoder_fns(ctx)
+    dec_name = check_decode_bits(ctx, ref, dec4, covered)
+    check_padding(ctx, ref, pads, dsize, covered)
+    if dec_name is None and covered and len(verdict["tables"]) == 1:
+        dec_name = sorted(verdict["tables"])[0]
+    check_tables(ctx, ref, enc_name, dec_name)
+    ctx.exhaustive = {"ALPHABET": "all 64 rows", "DECODE-INVERSE": "all 64 alphabet characters + pad", "ENC-BITS/DEC-BITS": "all 24 bits of every shape",
+                      "CARRY": "every carry state x every byte value (one-byte steps)"}
+    diag = Diag(ctx)
+    fld = None
+    for rule, fn in (("READ-MIN", lambda: check_read_min(diag)), ("DEC-USE", lambda: check_dec_use(diag, dec4, dsize, fld)), ("SHORT-READ", lambda: check_reads(diag, ref, dec4, dsize))):
+        try:
+            r = fn()
+            if rule == "READ-MIN":
+                fld = r
+        except Exception as ex:      # a shape the MIR rule was not written for
+            diag.anchor(rule, "mir-shape", "the MIR shape rule met a construct it does not understand: %s: %s" % (type(ex).__name__, ex))
+    diag.flush(verdict)
     obligations(ctx)
